@@ -81,53 +81,44 @@ Proof. intros. apply nth_error_Some. unfold getj in H. congruence. Qed.
 (* ---- the effect of one atomic step on the shared state -------------------------------- *)
 Inductive effect (s : sess) : pc -> sess -> Prop :=
 | EffNone : forall p, effect s p s
-| EffInsert : forall id, effect s (PTask3 id) (insert_job s id)
+| EffInsert : forall id, held s = None -> effect s (PTask3 id) (insert_job s id)
 | EffStatus : forall p h j j', c14_pc p = false -> getj s h = Some j ->
     jid j' = jid j -> jdone j' = jdone j -> jorph j' = jorph j -> jres j' = jres j -> jerr j' = jerr j ->
     effect s p (setj s h j')
-| EffResult : forall h err tag j, getj s h = Some j -> lookup (jid j) (table s) = Some h ->
-    effect s (PH2 h err tag)
-      (set_table (setj s h (fin_job j (if err then StError else StCompleted) tag err)) (remove (jid j) (table s)))
-| EffCancelT : forall h j, getj s h = Some j -> jdone j <> Nil -> lookup (jid j) (table s) = Some h ->
-    effect s (PC1 h)
-      (set_table (setj s h (fin_job j StCanceled (jres j) (jerr j))) (remove (jid j) (table s)))
-| EffCancelO : forall h j, getj s h = Some j -> jdone j <> Nil -> lookup (jid j) (table s) <> Some h ->
-    effect s (PC1 h) (setj s h (fin_job j StCanceled (jres j) (jerr j))).
-
-Definition no_closed (s : sess) : Prop := forall h j, getj s h = Some j -> jdone j <> Closed.
+| EffAcqH : forall h err tag pl j, held s = None -> getj s h = Some j -> lookup (jid j) (table s) = Some h ->
+    effect s (PH2 h err tag pl) (set_held s (Some (HRes h err tag pl)))
+| EffAcqC : forall h j, held s = None -> getj s h = Some j -> jdone j <> Nil ->
+    effect s (PC1 h) (set_held s (Some (CSt h)))
+| EffCs : forall r c s', held s = Some c -> cs_step c s = Ok s' -> effect s (PCS r) s'.
 
 Ltac break_in H :=
   repeat match type of H with
   | context [match ?x with _ => _ end] => destruct x eqn:?
   end.
 
-Lemma step_effect : forall p s p' s',
-  no_closed s -> step p s = Ok (p', s') -> effect s p s'.
+Lemma is_held_false : forall s, is_held s = false -> held s = None.
+Proof. intros s H. unfold is_held in H. destruct (held s); [discriminate|reflexivity]. Qed.
+
+Lemma step_free_effect : forall p s p' s',
+  (needs_lock p = true -> held s = None) -> step_free p s = Ok (p', s') -> effect s p s'.
 Proof.
-  intros p s p' s' NC H.
-  destruct p; cbn [step step_common] in H;
+  intros p s p' s' L H.
+  destruct p; cbn [step_free step_common] in H;
     try (break_in H; try discriminate; inversion H; subst; clear H; apply EffNone).
-  - (* PTask3 *) inversion H; subst. apply EffInsert.
+  - (* PTask3 *) inversion H; subst. apply EffInsert. apply L. reflexivity.
   - (* PH2 *)
     destruct (getj s h) as [j|] eqn:G; [|inversion H; subst; apply EffNone].
-    destruct (lookup (jid j) (table s)) as [h'|] eqn:L; [|inversion H; subst; apply EffNone].
+    destruct (lookup (jid j) (table s)) as [h'|] eqn:Lk; [|inversion H; subst; apply EffNone].
     destruct (Nat.eqb h' h) eqn:E; [|inversion H; subst; apply EffNone].
-    apply Nat.eqb_eq in E. subst h'. pose proof (NC _ _ G) as NCj.
-    destruct j as [i st d r e f o]. cbn in *.
-    destruct d; cbn in H; try congruence; inversion H; subst; clear H;
-      exact (EffResult s h err tag _ G L).
+    apply Nat.eqb_eq in E. subst h'. inversion H; subst. eapply EffAcqH; eauto.
+  - (* PCS *)
+    destruct (held s) as [c|] eqn:Hd; [|inversion H; subst; apply EffNone].
+    unfold bind in H. destruct (cs_step c s) as [s1| |] eqn:C; try discriminate.
+    inversion H; subst. eapply EffCs; eauto.
   - (* PC1 *)
     destruct (getj s h) as [j|] eqn:G; [|inversion H; subst; apply EffNone].
-    pose proof (NC _ _ G) as NCj.
-    destruct j as [i st d r e f o]. cbn in *.
-    destruct d; cbn in H; try congruence; [|inversion H; subst; apply EffNone].
-    destruct (lookup i (table s)) as [h'|] eqn:L.
-    + destruct (Nat.eqb h' h) eqn:E; inversion H; subst; clear H.
-      * apply Nat.eqb_eq in E. subst h'.
-        refine (EffCancelT s h _ G _ L). cbn. congruence.
-      * apply Nat.eqb_neq in E.
-        refine (EffCancelO s h _ G _ _); cbn; congruence.
-    + inversion H; subst; clear H. refine (EffCancelO s h _ G _ _); cbn; congruence.
+    destruct (jdone j) eqn:D; inversion H; subst; try apply EffNone;
+      (eapply EffAcqC; [apply L; reflexivity|exact G|congruence]).
   - (* PA2 *)
     destruct (getj s h) as [j|] eqn:G; inversion H; subst; [|apply EffNone].
     eapply EffStatus; eauto.
@@ -136,24 +127,13 @@ Proof.
     eapply EffStatus; eauto; destruct (jfrags j =? 0); reflexivity.
 Qed.
 
-Lemma step_total : forall p s, no_closed s -> exists p' s', step p s = Ok (p', s').
+Lemma step_effect : forall p s p' s', step p s = Ok (p', s') -> effect s p s'.
 Proof.
-  intros p s NC.
-  destruct p; cbn [step step_common];
-    try (repeat match goal with |- context [match ?x with _ => _ end] => destruct x eqn:? end; eauto; fail).
-  - (* PH2 *)
-    destruct (getj s h) as [j|] eqn:G; eauto.
-    destruct (lookup (jid j) (table s)) as [h'|]; eauto.
-    destruct (Nat.eqb h' h); eauto.
-    pose proof (NC _ _ G). destruct j as [i st d r e f o]; cbn in *.
-    destruct d; cbn; eauto; congruence.
-  - (* PC1 *)
-    destruct (getj s h) as [j|] eqn:G; eauto.
-    pose proof (NC _ _ G). destruct j as [i st d r e f o]; cbn in *.
-    destruct d; cbn; eauto; try congruence.
-    destruct (lookup i (table s)) as [h'|]; eauto. destruct (Nat.eqb h' h); eauto.
+  intros p s p' s' H. unfold step in H.
+  destruct (needs_lock p && is_held s) eqn:E.
+  - inversion H; subst. apply EffNone.
+  - eapply step_free_effect; eauto. intro N. rewrite N in E. cbn in E. apply is_held_false; exact E.
 Qed.
-
 (* ---- insert_job ---------------------------------------------------------------------- *)
 Definition ins_jobs (s : sess) (id : Z) : list job :=
   match lookup id (table s) with
@@ -165,7 +145,7 @@ Definition ins_jobs (s : sess) (id : Z) : list job :=
   end.
 
 Lemma insert_job_eq : forall s id,
-  insert_job s id = mkSess (ins_jobs s id ++ [new_job id]) ((id, length (jobs s)) :: remove id (table s)).
+  insert_job s id = mkSess (ins_jobs s id ++ [new_job id]) ((id, length (jobs s)) :: remove id (table s)) (held s).
 Proof. reflexivity. Qed.
 
 Lemma ins_jobs_length : forall s id, length (ins_jobs s id) = length (jobs s).
@@ -239,28 +219,13 @@ Proof.
   rewrite lookup_remove. rewrite Z.eqb_sym, E. reflexivity.
 Qed.
 
-(* ---- the invariant of the shared state ------------------------------------------------ *)
-Record Inv (s : sess) : Prop := {
-  inv_noclosed : no_closed s;
-  (* what the table holds is a pending, not overwritten job with that number *)
-  inv_table : forall k h, lookup k (table s) = Some h ->
-     exists j, getj s h = Some j /\ jid j = k /\ jdone j = Open /\ jorph j = false;
-  (* a pending job that was not overwritten is in the table under its number *)
-  inv_open : forall h j, getj s h = Some j -> jdone j = Open -> jorph j = false ->
-     lookup (jid j) (table s) = Some h
-}.
 
+Lemma held_insert : forall s id, held (insert_job s id) = held s.
+Proof. reflexivity. Qed.
 Lemma getj_set_table : forall s t h, getj (set_table s t) h = getj s h.
 Proof. reflexivity. Qed.
-
-Lemma Inv_s0 : Inv s0.
-Proof.
-  split.
-  - intros h j H. destruct h; discriminate.
-  - intros k h H. discriminate.
-  - intros h j H. destruct h; discriminate.
-Qed.
-
+Lemma getj_set_held : forall s c h, getj (set_held s c) h = getj s h.
+Proof. reflexivity. Qed.
 Lemma opt_eqb_true : forall a h, option_eqb Nat.eqb a (Some h) = true <-> a = Some h.
 Proof.
   intros [x|] h; cbn; split; intro H; try discriminate.
@@ -268,86 +233,268 @@ Proof.
   - inversion H. apply Nat.eqb_refl.
 Qed.
 
+(* ---- the invariant of the shared state ------------------------------------------------ *)
+(* stages of a critical section *)
+Definition closed_st (c : cs) : bool := match c with HNil _ | CStNil _ => true | _ => false end.
+Definition post_del (c : cs) : bool := match c with HClose _ _ _ | CClose _ => true | _ => false end.
+Definition tracked_st (c : cs) : bool :=
+  match c with
+  | HRes _ _ _ _ | HSt _ _ _ _ | HErrSt _ _ _ | HErrTxt _ _ _ | HInfo _ _ | HDel _ _ _ | CDel _ => true
+  | _ => false
+  end.
+Definition untracked_st (c : cs) : bool := post_del c || closed_st c.
+
+Record Inv (s : sess) : Prop := {
+  (* done is "closed, not yet nil" only for the job of the lock holder, between its last two writes *)
+  inv_closed : forall h j, getj s h = Some j -> jdone j = Closed ->
+     exists c, held s = Some c /\ cs_job c = h /\ closed_st c = true;
+  (* what the table holds is a pending, not overwritten job with that number *)
+  inv_table : forall k h, lookup k (table s) = Some h ->
+     exists j, getj s h = Some j /\ jid j = k /\ jdone j = Open /\ jorph j = false;
+  (* a pending job that was not overwritten is in the table under its number, or it is the job of
+     the lock holder, already deleted and about to be closed *)
+  inv_open : forall h j, getj s h = Some j -> jdone j = Open -> jorph j = false ->
+     lookup (jid j) (table s) = Some h \/ exists c, held s = Some c /\ cs_job c = h /\ post_del c = true;
+  (* the job of the lock holder *)
+  inv_held : forall c, held s = Some c ->
+     exists j, getj s (cs_job c) = Some j /\
+       (closed_st c = false -> jdone j = Open) /\
+       (closed_st c = true -> jdone j = Closed) /\
+       (tracked_st c = true -> lookup (jid j) (table s) = Some (cs_job c)) /\
+       (untracked_st c = true -> lookup (jid j) (table s) <> Some (cs_job c))
+}.
+
+Lemma Inv_s0 : Inv s0.
+Proof.
+  split.
+  - intros h j H. destruct h; discriminate.
+  - intros k h H. discriminate.
+  - intros h j H. destruct h; discriminate.
+  - intros c H. discriminate.
+Qed.
+
+Definition no_closed (s : sess) : Prop := forall h j, getj s h = Some j -> jdone j <> Closed.
+Lemma unheld_no_closed : forall s, Inv s -> held s = None -> no_closed s.
+Proof. intros s I H h j G D. destruct (inv_closed _ I _ _ G D) as [c [Hc _]]. congruence. Qed.
+
+(* a write of a field of the lock holder's job that is neither done nor the table *)
+Lemma inv_field_write : forall s c c' j j',
+  Inv s -> held s = Some c -> getj s (cs_job c) = Some j -> cs_job c' = cs_job c ->
+  jid j' = jid j -> jdone j' = jdone j -> jorph j' = jorph j ->
+  closed_st c' = closed_st c -> (post_del c = true -> post_del c' = true) ->
+  (tracked_st c' = true -> lookup (jid j) (table s) = Some (cs_job c)) ->
+  (untracked_st c' = true -> lookup (jid j) (table s) <> Some (cs_job c)) ->
+  Inv (set_held (setj s (cs_job c) j') (Some c')).
+Proof.
+  intros s c c' j j' [NC T O Hh] Hd G Ej Ei Ed Eo Ec Ep Et Eu.
+  destruct (Hh _ Hd) as [j0 [G0 [H1 [H1c [H2 H3]]]]]. rewrite G in G0. inversion G0; subst j0. clear G0.
+  split; cbn [held table set_held setj].
+  - intros h2 j2 G2 D2. rewrite getj_set_held, getj_setj in G2. destruct (Nat.eqb (cs_job c) h2) eqn:E.
+    + apply Nat.eqb_eq in E. subst h2. rewrite G in G2. inversion G2; subst j2.
+      rewrite Ed in D2. destruct (NC _ _ G D2) as [c0 [Hc0 [J0 C0]]]. rewrite Hd in Hc0. inversion Hc0; subst c0.
+      exists c'. rewrite Ec. auto.
+    + destruct (NC _ _ G2 D2) as [c0 [Hc0 [J0 C0]]]. rewrite Hd in Hc0. inversion Hc0; subst c0.
+      apply Nat.eqb_neq in E. congruence.
+  - intros k h2 L. destruct (T _ _ L) as [j2 [G2 R]]. rewrite getj_set_held, getj_setj.
+    destruct (Nat.eqb (cs_job c) h2) eqn:E.
+    + apply Nat.eqb_eq in E. subst h2. rewrite G. exists j'. split; [reflexivity|].
+      rewrite G in G2. inversion G2; subst j2. rewrite Ei, Ed, Eo. exact R.
+    + exists j2. auto.
+  - intros h2 j2 G2 D2 O2. rewrite getj_set_held, getj_setj in G2. destruct (Nat.eqb (cs_job c) h2) eqn:E.
+    + apply Nat.eqb_eq in E. subst h2. rewrite G in G2. inversion G2; subst j2.
+      rewrite Ed in D2. rewrite Eo in O2. rewrite Ei.
+      destruct (O _ _ G D2 O2) as [L|[c0 [Hc0 [J0 P0]]]]; [left; exact L|].
+      rewrite Hd in Hc0. inversion Hc0; subst c0. right. exists c'. auto.
+    + destruct (O _ _ G2 D2 O2) as [L|[c0 [Hc0 [J0 P0]]]]; [left; exact L|].
+      rewrite Hd in Hc0. inversion Hc0; subst c0. apply Nat.eqb_neq in E. congruence.
+  - intros c0 Hc0. inversion Hc0; subst c0. rewrite Ej, getj_set_held, (getj_setj_same _ _ _ _ G).
+    exists j'. split; [reflexivity|]. rewrite Ed, Ei, Ec. auto.
+Qed.
+
+Lemma setj_same : forall s h j, getj s h = Some j -> setj s h j = s.
+Proof. intros [js t hd] h j G. unfold setj, getj in *. cbn in *. rewrite (upd_same _ _ _ G). reflexivity. Qed.
+
+(* delete(s.jobs, j.ID) by the lock holder *)
+Lemma inv_del : forall s c c' j,
+  Inv s -> held s = Some c -> getj s (cs_job c) = Some j -> cs_job c' = cs_job c ->
+  tracked_st c = true -> post_del c' = true ->
+  Inv (set_held (set_table s (remove (jid j) (table s))) (Some c')).
+Proof.
+  intros s c c' j [NC T O Hh] Hd G Ej Tc Pc.
+  destruct (Hh _ Hd) as [j0 [G0 [H1 [H1c [H2 H3]]]]]. rewrite G in G0. inversion G0; subst j0. clear G0.
+  assert (Cc : closed_st c = false) by (destruct c; try discriminate; reflexivity).
+  assert (Cc' : closed_st c' = false) by (destruct c'; try discriminate; reflexivity).
+  assert (Pd : post_del c = false) by (destruct c; try discriminate; reflexivity).
+  specialize (H2 Tc). specialize (H1 Cc).
+  split; cbn [held table set_held set_table].
+  - intros h2 j2 G2 D2. destruct (NC _ _ G2 D2) as [c0 [Hc0 [J0 C0]]]. congruence.
+  - intros k h2 L. rewrite lookup_remove in L. destruct (k =? jid j) eqn:E; [discriminate|].
+    destruct (T _ _ L) as [j2 R]. exists j2. exact R.
+  - intros h2 j2 G2 D2 O2. change (getj s h2 = Some j2) in G2.
+    destruct (Nat.eq_dec h2 (cs_job c)) as [->|NE].
+    + right. exists c'. auto.
+    + left. destruct (O _ _ G2 D2 O2) as [L|[c0 [Hc0 [J0 P0]]]]; [|congruence].
+      rewrite lookup_remove. destruct (jid j2 =? jid j) eqn:E; [|exact L].
+      apply Z.eqb_eq in E. congruence.
+  - intros c0 Hc0. inversion Hc0; subst c0. rewrite Ej. exists j. split; [exact G|].
+    split; [auto|]. split; [congruence|]. split.
+    + intro X. destruct c'; discriminate.
+    + intros _. rewrite lookup_remove, Z.eqb_refl. discriminate.
+Qed.
+
+(* close(j.done) by the lock holder *)
+Lemma inv_close : forall s c c' j,
+  Inv s -> held s = Some c -> getj s (cs_job c) = Some j -> cs_job c' = cs_job c ->
+  post_del c = true -> closed_st c' = true ->
+  Inv (set_held (setj s (cs_job c) (with_done j Closed)) (Some c')).
+Proof.
+  intros s c c' j [NC T O Hh] Hd G Ej Pc Cc'.
+  destruct (Hh _ Hd) as [j0 [G0 [H1 [H1c [H2 H3]]]]]. rewrite G in G0. inversion G0; subst j0. clear G0.
+  assert (U : lookup (jid j) (table s) <> Some (cs_job c)) by (apply H3; unfold untracked_st; rewrite Pc; reflexivity).
+  split; cbn [held table set_held setj].
+  - intros h2 j2 G2 D2. rewrite getj_set_held, getj_setj in G2. destruct (Nat.eqb (cs_job c) h2) eqn:E.
+    + apply Nat.eqb_eq in E. exists c'. repeat split; auto. congruence.
+    + destruct (NC _ _ G2 D2) as [c0 [Hc0 [J0 C0]]]. rewrite Hd in Hc0. inversion Hc0; subst c0.
+      destruct c; discriminate.
+  - intros k h2 L. destruct (T _ _ L) as [j2 [G2 [I2 R]]]. rewrite getj_set_held, getj_setj_other; [eauto|].
+    intro; subst h2. rewrite G in G2. inversion G2; subst j2. congruence.
+  - intros h2 j2 G2 D2 O2. rewrite getj_set_held, getj_setj in G2. destruct (Nat.eqb (cs_job c) h2) eqn:E.
+    + rewrite G in G2. inversion G2; subst j2. discriminate.
+    + left. destruct (O _ _ G2 D2 O2) as [L|[c0 [Hc0 [J0 P0]]]]; [exact L|].
+      rewrite Hd in Hc0. inversion Hc0; subst c0. apply Nat.eqb_neq in E. congruence.
+  - intros c0 Hc0. inversion Hc0; subst c0. rewrite Ej, getj_set_held, (getj_setj_same _ _ _ _ G).
+    eexists. split; [reflexivity|]. cbn. split; [congruence|]. split; [reflexivity|]. split; [|auto].
+    intro X. destruct c'; discriminate.
+Qed.
+
+(* j.done = nil and Unlock by the lock holder *)
+Lemma inv_nil : forall s c j j',
+  Inv s -> held s = Some c -> getj s (cs_job c) = Some j -> closed_st c = true ->
+  jid j' = jid j -> jdone j' = Nil -> jorph j' = jorph j ->
+  Inv (set_held (setj s (cs_job c) j') None).
+Proof.
+  intros s c j j' [NC T O Hh] Hd G Cc Ei Ed Eo.
+  destruct (Hh _ Hd) as [j0 [G0 [H1 [H1c [H2 H3]]]]]. rewrite G in G0. inversion G0; subst j0. clear G0.
+  assert (U : lookup (jid j) (table s) <> Some (cs_job c)) by (apply H3; unfold untracked_st; rewrite Cc; apply orb_true_r).
+  assert (Pd : post_del c = false) by (destruct c; try discriminate; reflexivity).
+  split; cbn [held table set_held setj].
+  - intros h2 j2 G2 D2. rewrite getj_set_held, getj_setj in G2. destruct (Nat.eqb (cs_job c) h2) eqn:E.
+    + rewrite G in G2. inversion G2; subst j2. congruence.
+    + destruct (NC _ _ G2 D2) as [c0 [Hc0 [J0 C0]]]. rewrite Hd in Hc0. inversion Hc0; subst c0.
+      apply Nat.eqb_neq in E. congruence.
+  - intros k h2 L. destruct (T _ _ L) as [j2 [G2 [I2 R]]]. rewrite getj_set_held, getj_setj_other; [eauto|].
+    intro; subst h2. rewrite G in G2. inversion G2; subst j2. congruence.
+  - intros h2 j2 G2 D2 O2. rewrite getj_set_held, getj_setj in G2. destruct (Nat.eqb (cs_job c) h2) eqn:E.
+    + rewrite G in G2. inversion G2; subst j2. congruence.
+    + left. destruct (O _ _ G2 D2 O2) as [L|[c0 [Hc0 [J0 P0]]]]; [exact L|]. congruence.
+  - intros c0 Hc0. discriminate.
+Qed.
+
+Lemma cs_step_inv : forall s c s', Inv s -> held s = Some c -> cs_step c s = Ok s' -> Inv s'.
+Proof.
+  intros s c s' I Hd C.
+  destruct (inv_held _ I _ Hd) as [j [G [H1 [H1c [H2 H3]]]]].
+  unfold cs_step in C. rewrite G in C.
+  destruct c; cbn [cs_job] in *.
+  - (* HRes *) inversion C; subst. apply (inv_field_write s (HRes h err tag pl) (HSt h err tag pl) j); auto; discriminate.
+  - (* HSt *) inversion C; subst.
+    apply (inv_field_write s (HSt h err tag pl) (if err then HErrSt h tag pl else HInfo h tag) j); auto;
+      destruct err; auto; discriminate.
+  - (* HErrSt *) inversion C; subst. apply (inv_field_write s (HErrSt h tag pl) (HErrTxt h tag pl) j); auto; discriminate.
+  - (* HErrTxt *) inversion C; subst. apply (inv_field_write s (HErrTxt h tag pl) (HDel h true tag) j); auto; discriminate.
+  - (* HInfo *) inversion C; subst. rewrite <- (setj_same s h j G) at 1.
+    apply (inv_field_write s (HInfo h tag) (HDel h false tag) j); auto; discriminate.
+  - (* HDel *) inversion C; subst. apply (inv_del s (HDel h err tag) (HClose h err tag) j); auto.
+  - (* HClose *) rewrite (H1 eq_refl) in C. cbn in C. inversion C; subst.
+    apply (inv_close s (HClose h err tag) (HNil h) j); auto.
+  - (* HNil *) inversion C; subst. apply (inv_nil s (HNil h) j); auto.
+  - (* CSt *) inversion C; subst. clear C.
+    destruct (lookup (jid j) (table s)) as [h'|] eqn:L; [destruct (Nat.eqb h' h) eqn:E|].
+    + apply Nat.eqb_eq in E. subst h'.
+      apply (inv_field_write s (CSt h) (CDel h) j); auto; try discriminate.
+    + apply Nat.eqb_neq in E.
+      apply (inv_field_write s (CSt h) (CClose h) j); auto; try discriminate. intros _ X. cbn in X. congruence.
+    + apply (inv_field_write s (CSt h) (CClose h) j); auto; try discriminate. intros _ X. cbn in X. congruence.
+  - (* CDel *) inversion C; subst. apply (inv_del s (CDel h) (CClose h) j); auto.
+  - (* CClose *) rewrite (H1 eq_refl) in C. cbn in C. inversion C; subst.
+    apply (inv_close s (CClose h) (CStNil h) j); auto.
+  - (* CStNil *) inversion C; subst. apply (inv_nil s (CStNil h) j); auto.
+Qed.
+
+Lemma cs_step_total : forall s c, Inv s -> held s = Some c -> exists s', cs_step c s = Ok s'.
+Proof.
+  intros s c I Hd. destruct (inv_held _ I _ Hd) as [j [G [H1 _]]].
+  unfold cs_step. rewrite G. destruct c; cbn [cs_job] in *; eauto; rewrite (H1 eq_refl); cbn; eauto.
+Qed.
+
+
 Lemma effect_inv : forall s p s', Inv s -> effect s p s' -> Inv s'.
 Proof.
-  intros s p s' [NC T O] E. destruct E.
-  - split; assumption.
-  - (* insert *)
-    split.
-    + intros h j G. apply getj_insert_inv in G as [[_ ->]|[j0 [G [[-> _]|[-> _]]]]]; cbn; try congruence;
-        try (eapply NC; eauto).
+  intros s p s' I E. destruct E as [p|id Hn|p h j j' Cp G Ei Ed Eo Er Ee|h err tag pl j Hn G L|h j Hn G D|r c s' Hd C].
+  - exact I.
+  - (* insert; the lock is free *)
+    destruct I as [NC T O Hh]. split.
+    + intros h j G D. exfalso.
+      apply getj_insert_inv in G as [[_ ->]|[j0 [G [[-> _]|[-> _]]]]]; cbn in D; try discriminate;
+        destruct (NC _ _ G D) as [c [Hc _]]; congruence.
     + intros k h L. rewrite lookup_insert in L. destruct (id =? k) eqn:E.
       * apply Z.eqb_eq in E. inversion L; subst. exists (new_job k). rewrite getj_insert_new. cbn. auto.
-      * destruct (T _ _ L) as [j [G [I [D Or]]]]. exists j. split; [|auto].
+      * destruct (T _ _ L) as [j [G [Ij [D Or]]]]. exists j. split; [|auto].
         rewrite (getj_insert_old _ _ _ _ G).
         destruct (option_eqb Nat.eqb (lookup id (table s)) (Some h)) eqn:Q; [|reflexivity].
         apply opt_eqb_true in Q. destruct (T _ _ Q) as [j2 [G2 [I2 _]]].
         apply Z.eqb_neq in E. congruence.
-    + intros h j G D Or. rewrite lookup_insert.
+    + intros h j G D Or. left. rewrite lookup_insert.
       apply getj_insert_inv in G as [[-> ->]|[j0 [G [[-> NL]|[-> _]]]]].
       * cbn. rewrite Z.eqb_refl. reflexivity.
-      * pose proof (O _ _ G D Or) as L. destruct (id =? jid j0) eqn:E; [|exact L].
-        apply Z.eqb_eq in E. congruence.
+      * destruct (O _ _ G D Or) as [L|[c [Hc _]]]; [|congruence].
+        destruct (id =? jid j0) eqn:E; [|exact L]. apply Z.eqb_eq in E. congruence.
       * cbn in Or. discriminate.
-  - (* status / frags write *)
-    split.
-    + intros h2 j2 G. rewrite getj_setj in G. destruct (Nat.eqb h h2) eqn:E.
-      * rewrite H0 in G. inversion G; subst. rewrite H2. eapply NC; eauto.
-      * eapply NC; eauto.
-    + intros k h2 L. cbn [table setj] in L. destruct (T _ _ L) as [j2 [G2 R]].
-      rewrite getj_setj. destruct (Nat.eqb h h2) eqn:E.
-      * apply Nat.eqb_eq in E. subst. rewrite H0. exists j'. split; [reflexivity|].
-        rewrite H0 in G2. inversion G2; subst. rewrite H1, H2, H3. exact R.
+    + intros c Hc. rewrite held_insert in Hc. congruence.
+  - (* status / frags write, unlocked *)
+    destruct I as [NC T O Hh]. split; cbn [held table setj].
+    + intros h2 j2 G2 D2. rewrite getj_setj in G2. destruct (Nat.eqb h h2) eqn:E.
+      * apply Nat.eqb_eq in E. subst h2. rewrite G in G2. inversion G2; subst j2. rewrite Ed in D2. eauto.
+      * eauto.
+    + intros k h2 L. destruct (T _ _ L) as [j2 [G2 R]]. rewrite getj_setj. destruct (Nat.eqb h h2) eqn:E.
+      * apply Nat.eqb_eq in E. subst h2. rewrite G. exists j'. split; [reflexivity|].
+        rewrite G in G2. inversion G2; subst j2. rewrite Ei, Ed, Eo. exact R.
       * exists j2. auto.
-    + intros h2 j2 G D Or. cbn [table setj]. rewrite getj_setj in G. destruct (Nat.eqb h h2) eqn:E.
-      * apply Nat.eqb_eq in E. subst. rewrite H0 in G. inversion G; subst.
-        rewrite H1. apply O; congruence.
+    + intros h2 j2 G2 D2 O2. rewrite getj_setj in G2. destruct (Nat.eqb h h2) eqn:E.
+      * apply Nat.eqb_eq in E. subst h2. rewrite G in G2. inversion G2; subst j2.
+        rewrite Ei. apply O; congruence.
       * apply O; auto.
-  - (* result *)
-    destruct (T _ _ H0) as [j0 [G0 [_ [D0 Or0]]]]. rewrite H in G0. inversion G0; subst j0. clear G0.
-    split.
-    + intros h2 j2 G. rewrite getj_set_table in G.
-      rewrite getj_setj in G. destruct (Nat.eqb h h2).
-      * rewrite H in G. inversion G. cbn. congruence.
-      * eapply NC; eauto.
-    + intros k h2 L. cbn [table set_table] in L. rewrite lookup_remove in L.
-      destruct (k =? jid j) eqn:E; [discriminate|]. destruct (T _ _ L) as [j2 [G2 [I2 R]]].
-      exists j2. split; [|auto]. 
-      rewrite getj_set_table.
-      rewrite getj_setj_other; auto. intro; subst h2. apply Z.eqb_neq in E. congruence.
-    + intros h2 j2 G D Or. cbn [table set_table].
-      rewrite getj_set_table in G.
-      rewrite getj_setj in G. destruct (Nat.eqb h h2) eqn:E.
-      * rewrite H in G. inversion G; subst. discriminate.
-      * apply Nat.eqb_neq in E. pose proof (O _ _ G D Or) as L. rewrite lookup_remove.
-        destruct (jid j2 =? jid j) eqn:E2; [|exact L]. apply Z.eqb_eq in E2. congruence.
-  - (* cancel, tracked *)
-    split.
-    + intros h2 j2 G. rewrite getj_set_table in G.
-      rewrite getj_setj in G. destruct (Nat.eqb h h2).
-      * rewrite H in G. inversion G. cbn. congruence.
-      * eapply NC; eauto.
-    + intros k h2 L. cbn [table set_table] in L. rewrite lookup_remove in L.
-      destruct (k =? jid j) eqn:E; [discriminate|]. destruct (T _ _ L) as [j2 [G2 [I2 R]]].
-      exists j2. split; [|auto].
-      rewrite getj_set_table.
-      rewrite getj_setj_other; auto. intro; subst h2. apply Z.eqb_neq in E. congruence.
-    + intros h2 j2 G D Or. cbn [table set_table].
-      rewrite getj_set_table in G.
-      rewrite getj_setj in G. destruct (Nat.eqb h h2) eqn:E.
-      * rewrite H in G. inversion G; subst. discriminate.
-      * apply Nat.eqb_neq in E. pose proof (O _ _ G D Or) as L. rewrite lookup_remove.
-        destruct (jid j2 =? jid j) eqn:E2; [|exact L]. apply Z.eqb_eq in E2. congruence.
-  - (* cancel, not tracked (overwritten job) *)
-    split.
-    + intros h2 j2 G. rewrite getj_setj in G. destruct (Nat.eqb h h2).
-      * rewrite H in G. inversion G. cbn. congruence.
-      * eapply NC; eauto.
-    + intros k h2 L. cbn [table setj] in L. destruct (T _ _ L) as [j2 [G2 [I2 R]]].
-      exists j2. split; [|auto]. rewrite getj_setj_other; auto. intro; subst h2. congruence.
-    + intros h2 j2 G D Or. cbn [table setj]. rewrite getj_setj in G. destruct (Nat.eqb h h2) eqn:E.
-      * rewrite H in G. inversion G; subst. discriminate.
-      * apply O; auto.
+    + intros c Hc. destruct (Hh _ Hc) as [j2 [G2 R]]. destruct (Nat.eq_dec h (cs_job c)) as [Eq|NE].
+      * rewrite <- Eq in *. rewrite (getj_setj_same _ _ _ _ G). exists j'. split; [reflexivity|].
+        rewrite G in G2. inversion G2; subst j2. rewrite Ei, Ed. exact R.
+      * rewrite getj_setj_other by exact NE. exists j2. auto.
+  - (* handle takes the lock *)
+    destruct I as [NC T O Hh]. destruct (T _ _ L) as [j0 [G0 [_ [D0 _]]]]. rewrite G in G0. inversion G0; subst j0.
+    split; cbn [held table set_held]; try rewrite getj_set_held.
+    + intros h2 j2 G2 D2. destruct (NC _ _ G2 D2) as [c [Hc _]]. congruence.
+    + exact T.
+    + intros h2 j2 G2 D2 O2. destruct (O _ _ G2 D2 O2) as [X|[c [Hc _]]]; [left; exact X|congruence].
+    + intros c Hc. inversion Hc; subst c. cbn. exists j. repeat split; auto; discriminate.
+  - (* Cancel takes the lock *)
+    destruct I as [NC T O Hh].
+    assert (D0 : jdone j = Open).
+    { destruct (jdone j) eqn:X; auto; [|congruence]. destruct (NC _ _ G X) as [c [Hc _]]. congruence. }
+    split; cbn [held table set_held]; try rewrite getj_set_held.
+    + intros h2 j2 G2 D2. destruct (NC _ _ G2 D2) as [c [Hc _]]. congruence.
+    + exact T.
+    + intros h2 j2 G2 D2 O2. destruct (O _ _ G2 D2 O2) as [X|[c [Hc _]]]; [left; exact X|congruence].
+    + intros c Hc. inversion Hc; subst c. cbn. exists j. repeat split; auto; discriminate.
+  - eapply cs_step_inv; eauto.
+Qed.
+
+Lemma step_total : forall p s, Inv s -> exists p' s', step p s = Ok (p', s').
+Proof.
+  intros p s I. unfold step. destruct (needs_lock p && is_held s); [eauto|].
+  destruct p; cbn [step_free step_common];
+    try (repeat match goal with |- context [match ?x with _ => _ end] => destruct x eqn:? end; eauto; fail).
+  (* PCS *)
+  destruct (held s) as [c|] eqn:Hd; eauto.
+  destruct (cs_step_total s c I Hd) as [s1 ->]. cbn. eauto.
 Qed.
 
 (* ---- histories ------------------------------------------------------------------------ *)
@@ -368,19 +515,19 @@ Lemma exec_spawn : forall o (c : cfg),
 Proof. reflexivity. Qed.
 
 Lemma exec_effect : forall e (c c' : cfg),
-  Inv (snd c) -> exec step init_pc e c = Ok c' ->
+  exec step init_pc e c = Ok c' ->
   snd c' = snd c \/ exists t p, e = Run t /\ nth_error (fst c) t = Some p /\ effect (snd c) p (snd c').
 Proof.
-  intros e c c' I H. destruct e as [o|t].
+  intros e c c' H. destruct e as [o|t].
   - inversion H. left. reflexivity.
   - apply exec_run_cases in H as [[_ ->]|[p [p' [s' [N [S ->]]]]]]; [left; reflexivity|].
-    right. exists t, p. repeat split; auto. eapply step_effect; eauto. apply I.
+    right. exists t, p. repeat split; auto. eapply step_effect; eauto.
 Qed.
 
 Lemma exec_inv : forall e (c c' : cfg),
   Inv (snd c) -> exec step init_pc e c = Ok c' -> Inv (snd c').
 Proof.
-  intros e c c' I H. destruct (exec_effect _ _ _ I H) as [->|[t [p [_ [_ E]]]]]; [exact I|].
+  intros e c c' I H. destruct (exec_effect _ _ _ H) as [->|[t [p [_ [_ E]]]]]; [exact I|].
   eapply effect_inv; eauto.
 Qed.
 
@@ -388,7 +535,7 @@ Lemma exec_total : forall e (c : cfg), Inv (snd c) -> exists c', exec step init_
 Proof.
   intros e c I. destruct e as [o|t]; [eexists; reflexivity|].
   unfold exec. destruct (nth_error (fst c) t) as [p|]; [|eexists; reflexivity].
-  destruct (step_total p (snd c) (inv_noclosed _ I)) as [p' [s' ->]]. cbn. eexists; reflexivity.
+  destruct (step_total p (snd c) I) as [p' [s' ->]]. cbn. eexists; reflexivity.
 Qed.
 
 Lemma run_from_cons : forall e es (c : cfg),
@@ -438,97 +585,173 @@ Proof.
     eapply IH; [| |exact H]; [eapply exec_inv|eapply Hs]; eauto.
 Qed.
 
-(* ---- what happens to one job --------------------------------------------------------- *)
+(* ---- what happens to one job: done only moves open -> closed -> nil ----------------------- *)
+Definition done_le (a b : chan) : Prop :=
+  (a <> Open -> b <> Open) /\ (a = Nil -> b = Nil).
+
+Lemma done_le_refl : forall a, done_le a a.
+Proof. split; auto. Qed.
+
+Lemma cs_step_mono : forall c s s' h j,
+  cs_step c s = Ok s' -> getj s h = Some j ->
+  exists j', getj s' h = Some j' /\ jid j' = jid j /\ jorph j' = jorph j /\ done_le (jdone j) (jdone j') /\
+             (h <> cs_job c -> j' = j).
+Proof.
+  intros c s s' h j C G. unfold cs_step in C.
+  destruct (getj s (cs_job c)) as [j0|] eqn:G0.
+  2:{ inversion C; subst. exists j. rewrite getj_set_held. repeat split; auto; apply done_le_refl. }
+  assert (Same : forall x, exists j', getj (set_held s x) h = Some j' /\ jid j' = jid j /\ jorph j' = jorph j /\
+                   done_le (jdone j) (jdone j') /\ (h <> cs_job c -> j' = j)).
+  { intro x. exists j. rewrite getj_set_held. repeat split; auto. }
+  assert (Tab : forall t x, exists j', getj (set_held (set_table s t) x) h = Some j' /\ jid j' = jid j /\ jorph j' = jorph j /\
+                   done_le (jdone j) (jdone j') /\ (h <> cs_job c -> j' = j)).
+  { intros t x. exists j. rewrite getj_set_held, getj_set_table. repeat split; auto. }
+  assert (Upd : forall jn x, jid jn = jid j0 -> jorph jn = jorph j0 -> done_le (jdone j0) (jdone jn) ->
+                 exists j', getj (set_held (setj s (cs_job c) jn) x) h = Some j' /\ jid j' = jid j /\ jorph j' = jorph j /\
+                   done_le (jdone j) (jdone j') /\ (h <> cs_job c -> j' = j)).
+  { intros jn x Ei Eo Ed. rewrite getj_set_held, getj_setj. destruct (Nat.eqb (cs_job c) h) eqn:E.
+    - apply Nat.eqb_eq in E. subst h. rewrite G0. rewrite G0 in G. inversion G; subst j0.
+      exists jn. repeat split; auto; try apply Ed. congruence.
+    - exists j. repeat split; auto. }
+  destruct c; cbn [cs_job] in *.
+  - inversion C; subst. apply Upd; cbn; auto using done_le_refl.
+  - inversion C; subst. apply Upd; cbn; auto using done_le_refl.
+  - inversion C; subst. apply Upd; cbn; auto using done_le_refl.
+  - inversion C; subst. apply Upd; cbn; auto using done_le_refl.
+  - inversion C; subst. apply Same.
+  - inversion C; subst. apply Tab.
+  - (* HClose *)
+    destruct (jdone j0) eqn:D; cbn in C; try discriminate; inversion C; subst; try apply Same.
+    apply Upd; cbn; auto; split; congruence.
+  - (* HNil *) inversion C; subst. apply Upd; cbn; auto; split; congruence.
+  - (* CSt *) inversion C; subst. apply Upd; cbn; auto using done_le_refl.
+  - inversion C; subst. apply Tab.
+  - (* CClose *)
+    destruct (jdone j0) eqn:D; cbn in C; try discriminate; inversion C; subst.
+    apply Upd; cbn; auto; split; congruence.
+  - (* CStNil *) inversion C; subst. apply Upd; cbn; auto; split; congruence.
+Qed.
+
 Lemma effect_mono : forall s p s' h j,
   effect s p s' -> getj s h = Some j ->
-  exists j', getj s' h = Some j' /\ jid j' = jid j /\ (jdone j = Nil -> jdone j' = Nil) /\
-             (jdone j' = Open -> jdone j = Open).
+  exists j', getj s' h = Some j' /\ jid j' = jid j /\ done_le (jdone j) (jdone j').
 Proof.
   intros s p s' h j E G. destruct E.
-  - exists j. auto.
+  - exists j. auto using done_le_refl.
   - rewrite (getj_insert_old _ _ _ _ G).
-    destruct (option_eqb Nat.eqb (lookup id (table s)) (Some h)); eexists; split; eauto.
+    destruct (option_eqb Nat.eqb (lookup id (table s)) (Some h)); eexists; split; eauto; cbn; auto using done_le_refl.
   - rewrite getj_setj. destruct (Nat.eqb h0 h) eqn:E.
     + apply Nat.eqb_eq in E. subst. rewrite H0. rewrite H0 in G. inversion G; subst.
-      exists j'. rewrite H2. auto.
-    + exists j. auto.
-  - rewrite getj_set_table, getj_setj. destruct (Nat.eqb h0 h) eqn:E.
-    + apply Nat.eqb_eq in E. subst. rewrite H. rewrite H in G. inversion G; subst.
-      eexists. split; [reflexivity|]. cbn. repeat split; auto; discriminate.
-    + exists j. auto.
-  - rewrite getj_set_table, getj_setj. destruct (Nat.eqb h0 h) eqn:E.
-    + apply Nat.eqb_eq in E. subst. rewrite H. rewrite H in G. inversion G; subst.
-      eexists. split; [reflexivity|]. cbn. repeat split; auto; discriminate.
-    + exists j. auto.
-  - rewrite getj_setj. destruct (Nat.eqb h0 h) eqn:E.
-    + apply Nat.eqb_eq in E. subst. rewrite H. rewrite H in G. inversion G; subst.
-      eexists. split; [reflexivity|]. cbn. repeat split; auto; discriminate.
-    + exists j. auto.
+      exists j'. rewrite H2. auto using done_le_refl.
+    + exists j. auto using done_le_refl.
+  - exists j. rewrite getj_set_held. auto using done_le_refl.
+  - exists j. rewrite getj_set_held. auto using done_le_refl.
+  - destruct (cs_step_mono _ _ _ _ _ H0 G) as [j' [G' [I' [_ [D' _]]]]]. exists j'. auto.
 Qed.
 
 Lemma exec_mono : forall e (c c' : cfg) h j,
-  Inv (snd c) -> exec step init_pc e c = Ok c' -> getj (snd c) h = Some j ->
-  exists j', getj (snd c') h = Some j' /\ jid j' = jid j /\ (jdone j = Nil -> jdone j' = Nil) /\
-             (jdone j' = Open -> jdone j = Open).
+  exec step init_pc e c = Ok c' -> getj (snd c) h = Some j ->
+  exists j', getj (snd c') h = Some j' /\ jid j' = jid j /\ done_le (jdone j) (jdone j').
 Proof.
-  intros e c c' h j I H G. destruct (exec_effect _ _ _ I H) as [->|[t [p [_ [_ E]]]]].
-  - exists j. auto.
+  intros e c c' h j H G. destruct (exec_effect _ _ _ H) as [->|[t [p [_ [_ E]]]]].
+  - exists j. auto using done_le_refl.
   - eapply effect_mono; eauto.
 Qed.
 
-(* a finished job stays finished (any operations, accept / frag included) *)
+Lemma released_effect : forall s q s' h, effect s q s' -> released s h -> released s' h.
+Proof.
+  intros s q s' h E [j [G D]]. destruct (effect_mono _ _ _ _ _ E G) as [j' [G' [_ [N _]]]]. exists j'. auto.
+Qed.
+Lemma finished_effect : forall s q s' h, effect s q s' -> finished s h -> finished s' h.
+Proof.
+  intros s q s' h E [j [G D]]. destruct (effect_mono _ _ _ _ _ E G) as [j' [G' [_ [_ N]]]]. exists j'. auto.
+Qed.
+
+(* a released job stays released, a finished job stays finished (any operations) *)
+Lemma released_stable : forall es (c c' : cfg) h,
+  Inv (snd c) -> released (snd c) h -> run_from c es = Ok c' -> released (snd c') h.
+Proof.
+  intros es c c' h I F H. revert es c c' I F H.
+  refine (run_from_ind (fun c => released (snd c) h) _).
+  intros e c c' I R X. destruct (exec_effect _ _ _ X) as [->|[t [p [_ [_ E]]]]]; [exact R|].
+  eapply released_effect; eauto.
+Qed.
 Lemma finished_stable : forall es (c c' : cfg) h,
   Inv (snd c) -> finished (snd c) h -> run_from c es = Ok c' -> finished (snd c') h.
 Proof.
   intros es c c' h I F H. revert es c c' I F H.
   refine (run_from_ind (fun c => finished (snd c) h) _).
-  intros e c c' I [j [G D]] X. destruct (exec_mono _ _ _ _ _ I X G) as [j' [G' [_ [N _]]]].
-  exists j'. auto.
+  intros e c c' I R X. destruct (exec_effect _ _ _ X) as [->|[t [p [_ [_ E]]]]]; [exact R|].
+  eapply finished_effect; eauto.
 Qed.
 
-Lemma pending_not_finished : forall s h, pending s h -> finished s h -> False.
+Lemma finished_released : forall s h, finished s h -> released s h.
+Proof. intros s h [j [G D]]. exists j. split; [exact G|congruence]. Qed.
+
+Lemma pending_not_released : forall s h, pending s h -> released s h -> False.
 Proof. intros s h [j [G D]] [j' [G' D']]. congruence. Qed.
 
-(* the job exists: it is pending or finished, never in between (done is never "closed") *)
-Lemma pending_or_finished : forall s h j, Inv s -> getj s h = Some j -> pending s h \/ finished s h.
+Lemma pending_or_released : forall s h j, getj s h = Some j -> pending s h \/ released s h.
 Proof.
-  intros s h j I G. pose proof (inv_noclosed _ I _ _ G). destruct (jdone j) eqn:D; try congruence.
+  intros s h j G. destruct (jdone j) eqn:D.
   - left. exists j. auto.
-  - right. exists j. auto.
+  - right. exists j. split; [exact G|congruence].
+  - right. exists j. split; [exact G|congruence].
 Qed.
 
 (* ---- leaves_table / waiters_released (state part) --------------------------------------- *)
 Lemma tracked_pending : forall s h, Inv s -> tracked s h -> pending s h.
 Proof. intros s h I [k L]. destruct (inv_table _ I _ _ L) as [j [G [_ [D _]]]]. exists j. auto. Qed.
 
-Lemma finished_not_tracked : forall s h, Inv s -> finished s h -> ~ tracked s h.
-Proof. intros s h I F T. eapply pending_not_finished; eauto. apply tracked_pending; auto. Qed.
+Lemma released_not_tracked : forall s h, Inv s -> released s h -> ~ tracked s h.
+Proof. intros s h I F T. eapply pending_not_released; eauto. apply tracked_pending; auto. Qed.
 
+(* while no critical section is in progress: not in the table (and not overwritten) = finished *)
 Lemma untracked_finished : forall s h j,
-  Inv s -> getj s h = Some j -> jorph j = false -> ~ tracked s h -> finished s h.
+  Inv s -> held s = None -> getj s h = Some j -> jorph j = false -> ~ tracked s h -> finished s h.
 Proof.
-  intros s h j I G Or NT. destruct (pending_or_finished _ _ _ I G) as [[j' [G' D]]|F]; [|exact F].
-  exfalso. apply NT. exists (jid j). rewrite G in G'. inversion G'; subst. apply (inv_open _ I); auto.
+  intros s h j I Hn G Or NT. exists j. split; [exact G|]. destruct (jdone j) eqn:D; auto.
+  - exfalso. apply NT. exists (jid j). destruct (inv_open _ I _ _ G D Or) as [L|[c [Hc _]]]; [exact L|congruence].
+  - exfalso. destruct (inv_closed _ I _ _ G D) as [c [Hc _]]. congruence.
 Qed.
 
-(* a waiter of a finished job returns at its next step; IsDone answers true *)
-Lemma wait_step_finished : forall s h p,
-  finished s h -> p = PW0 h \/ p = PW1 h -> step p s = Ok (PDone RUnit, s).
-Proof. intros s h p [j [G D]] [->| ->]; cbn; rewrite G, D; reflexivity. Qed.
+Lemma step_unlocked : forall p s, needs_lock p = false -> step p s = step_free p s.
+Proof. intros p s H. unfold step. rewrite H. reflexivity. Qed.
 
-Lemma isdone_step_finished : forall s h p,
-  finished s h -> p = PI0 h \/ p = PI1 h -> step p s = Ok (PDone (RBool true), s).
-Proof. intros s h p [j [G D]] [->| ->]; cbn; rewrite G, D; reflexivity. Qed.
+(* a waiter of a released job returns: at its next step, or (it had not yet loaded done) at the one after *)
+Lemma wait_step_released : forall s h,
+  released s h ->
+  step (PW1 h) s = Ok (PDone RUnit, s) /\
+  (step (PW0 h) s = Ok (PDone RUnit, s) \/ step (PW0 h) s = Ok (PW1 h, s)).
+Proof.
+  intros s h [j [G D]]. rewrite !step_unlocked by reflexivity. cbn. rewrite G.
+  destruct (jdone j); try congruence; auto.
+Qed.
+
+Lemma isdone_step_released : forall s h,
+  released s h ->
+  step (PI1 h) s = Ok (PDone (RBool true), s) /\
+  (step (PI0 h) s = Ok (PDone (RBool true), s) \/ step (PI0 h) s = Ok (PI1 h, s)).
+Proof.
+  intros s h [j [G D]]. rewrite !step_unlocked by reflexivity. cbn. rewrite G.
+  destruct (jdone j); try congruence; auto.
+Qed.
 
 (* a waiter of a pending job does not return; IsDone answers false *)
 Lemma wait_step_pending : forall s h p p' s',
   pending s h -> p = PW0 h \/ p = PW1 h -> step p s = Ok (p', s') -> p' = PW1 h /\ s' = s.
-Proof. intros s h p p' s' [j [G D]] [->| ->] H; cbn in H; rewrite G, D in H; inversion H; auto. Qed.
+Proof.
+  intros s h p p' s' [j [G D]] [->| ->] H; rewrite step_unlocked in H by reflexivity;
+    cbn in H; rewrite G, D in H; inversion H; auto.
+Qed.
 
 Lemma isdone_step_pending : forall s h p p' s',
   pending s h -> p = PI0 h \/ p = PI1 h -> step p s = Ok (p', s') ->
   (p' = PI1 h \/ p' = PDone (RBool false)) /\ s' = s.
-Proof. intros s h p p' s' [j [G D]] [->| ->] H; cbn in H; rewrite G, D in H; inversion H; auto. Qed.
+Proof.
+  intros s h p p' s' [j [G D]] [->| ->] H; rewrite step_unlocked in H by reflexivity;
+    cbn in H; rewrite G, D in H; inversion H; auto.
+Qed.
 
 (* ---- one thread through a history ------------------------------------------------------- *)
 Lemma thread_inv (R : pc -> sess -> Prop) :
@@ -548,16 +771,11 @@ Proof.
     + rewrite N in N'. inversion N'; subst q. exists q'. split; [eapply nth_upd_same; eauto|].
       eapply Own; eauto.
     + exists p. rewrite nth_upd_other by exact NE. split; [exact N|].
-      eapply Oth; eauto. eapply step_effect; eauto. apply I.
+      eapply Oth; eauto. eapply step_effect; eauto.
 Qed.
 
 Lemma nth_spawned : forall (ps : list pc) p, nth_error (ps ++ [p]) (length ps) = Some p.
 Proof. intros. rewrite nth_error_app2 by lia. rewrite Nat.sub_diag. reflexivity. Qed.
-
-(* Wait never returns while the job is pending: a thread started as Wait(h) on an existing job
-   that has returned implies the job is finished *)
-Definition wait_R (h : nat) (p : pc) (s : sess) : Prop :=
-  (h < length (jobs s))%nat /\ (p = PW0 h \/ p = PW1 h \/ ((exists r, p = PDone r) /\ finished s h)).
 
 Lemma lt_getj : forall s h, (h < length (jobs s))%nat -> exists j, getj s h = Some j.
 Proof. intros s h L. unfold getj. destruct (nth_error (jobs s) h) eqn:E; eauto. apply nth_error_None in E. lia. Qed.
@@ -568,36 +786,95 @@ Proof.
   destruct (effect_mono _ _ _ _ _ E G) as [j' [G' _]]. eapply getj_lt; eauto.
 Qed.
 
-Lemma finished_effect : forall s q s' h, effect s q s' -> finished s h -> finished s' h.
-Proof.
-  intros s q s' h E [j [G D]]. destruct (effect_mono _ _ _ _ _ E G) as [j' [G' [_ [N _]]]]. exists j'. auto.
-Qed.
+(* Wait never returns while the job is pending *)
+Definition wait_R (h : nat) (p : pc) (s : sess) : Prop :=
+  (h < length (jobs s))%nat /\ (p = PW0 h \/ p = PW1 h \/ ((exists r, p = PDone r) /\ released s h)).
 
 Lemma wait_not_early : forall es (c c' : cfg) h r,
   Inv (snd c) -> (h < length (jobs (snd c)))%nat ->
   run_from c (Spawn (OWait h) :: es) = Ok c' ->
-  nth_error (fst c') (length (fst c)) = Some (PDone r) -> finished (snd c') h.
+  nth_error (fst c') (length (fst c)) = Some (PDone r) -> released (snd c') h.
 Proof.
   intros es c c' h r I V H N. rewrite run_from_cons, exec_spawn in H. cbn [bind] in H.
   destruct (thread_inv (wait_R h)) with (es := es) (c := (fst c ++ [init_pc (OWait h)], snd c)) (c' := c') (t := length (fst c))
     as [p' [N' [_ R]]]; auto.
-  - intros p s p' s' Is [L R] S. pose proof (inv_noclosed _ Is) as NC. destruct (lt_getj _ _ L) as [j G].
-    destruct R as [->|[->|[[r0 ->] F]]]; cbn in S; try rewrite G in S.
+  - intros p s p' s' Is [L R] S. destruct (lt_getj _ _ L) as [j G].
+    destruct R as [->|[->|[[r0 ->] F]]]; rewrite step_unlocked in S by reflexivity; cbn in S; try rewrite G in S.
+    + destruct (jdone j) eqn:D; inversion S; subst; (split; [auto|]); auto.
+      right; right; (split; [eauto|]); exists j; (split; [auto|congruence]).
     + destruct (jdone j) eqn:D; inversion S; subst; (split; [auto|]); auto;
-        try (exfalso; eapply NC; eauto; fail); right; right; split; eauto; exists j; auto.
-    + destruct (jdone j) eqn:D; inversion S; subst; (split; [auto|]); auto;
-        try (exfalso; eapply NC; eauto; fail); right; right; split; eauto; exists j; auto.
+        right; right; (split; [eauto|]); exists j; (split; [auto|congruence]).
     + inversion S; subst. split; eauto.
   - intros p s q s' Is [L R] E. split; [eapply valid_effect; eauto|].
-    destruct R as [->|[->|[X F]]]; auto. right. right. split; auto. eapply finished_effect; eauto.
+    destruct R as [->|[->|[X F]]]; auto. right. right. split; auto. eapply released_effect; eauto.
   - exists (PW0 h). cbn. split; [apply nth_spawned|]. split; auto.
   - rewrite N in N'. inversion N'; subst. destruct R as [X|[X|[_ F]]]; try discriminate. exact F.
 Qed.
 
-(* Cancel finishes the job: a thread started as Cancel(h) on an existing job that has returned
-   implies the job is finished (by it or by someone else) *)
+(* IsDone = true only for a released job *)
+Definition isdone_R (h : nat) (p : pc) (s : sess) : Prop :=
+  (h < length (jobs s))%nat /\
+  (p = PI0 h \/ p = PI1 h \/ p = PDone (RBool false) \/ (p = PDone (RBool true) /\ released s h)).
+
+Lemma isdone_true_released : forall es (c c' : cfg) h,
+  Inv (snd c) -> (h < length (jobs (snd c)))%nat ->
+  run_from c (Spawn (OIsDone h) :: es) = Ok c' ->
+  nth_error (fst c') (length (fst c)) = Some (PDone (RBool true)) -> released (snd c') h.
+Proof.
+  intros es c c' h I V H N. rewrite run_from_cons, exec_spawn in H. cbn [bind] in H.
+  destruct (thread_inv (isdone_R h)) with (es := es) (c := (fst c ++ [init_pc (OIsDone h)], snd c)) (c' := c') (t := length (fst c))
+    as [p' [N' [_ R]]]; auto.
+  - intros p s p' s' Is [L R] S. destruct (lt_getj _ _ L) as [j G].
+    destruct R as [->|[->|[->|[-> F]]]]; rewrite step_unlocked in S by reflexivity; cbn in S; try rewrite G in S.
+    + destruct (jdone j) eqn:D; inversion S; subst; (split; [auto|]); auto.
+      right. right. right. split; auto. exists j. split; [auto|congruence].
+    + destruct (jdone j) eqn:D; inversion S; subst; (split; [auto|]); auto;
+        right; right; right; (split; [auto|]); exists j; (split; [auto|congruence]).
+    + inversion S; subst. split; auto.
+    + inversion S; subst. split; auto.
+  - intros p s q s' Is [L R] E. split; [eapply valid_effect; eauto|].
+    destruct R as [->|[->|[->|[-> F]]]]; auto. right. right. right. split; auto. eapply released_effect; eauto.
+  - exists (PI0 h). cbn. split; [apply nth_spawned|]. split; auto.
+  - rewrite N in N'. inversion N'; subst. destruct R as [X|[X|[X|[_ F]]]]; try discriminate. exact F.
+Qed.
+
+(* ---- Cancel, once it has returned, leaves the job finished ------------------------------- *)
+Definition cancel_st (c : cs) : bool :=
+  match c with CSt _ | CDel _ | CClose _ | CStNil _ => true | _ => false end.
+(* the Cancel of h holds the lock, or h is finished *)
+Definition cprog (s : sess) (h : nat) : Prop :=
+  (exists c, held s = Some c /\ cancel_st c = true /\ cs_job c = h) \/ finished s h.
+
+Lemma cs_step_cprog : forall s c s' h,
+  Inv s -> held s = Some c -> cs_step c s = Ok s' -> cprog s h -> cprog s' h.
+Proof.
+  intros s c s' h I Hd C [[c0 [Hc0 [Cs J]]]|F].
+  - rewrite Hd in Hc0. inversion Hc0; subst c0. subst h.
+    destruct (inv_held _ I _ Hd) as [j [G [H1 _]]].
+    unfold cs_step in C. rewrite G in C. destruct c; try discriminate; cbn [cs_job] in *.
+    + inversion C; subst. left. eexists. split; [reflexivity|].
+      destruct (match lookup (jid j) (table s) with Some h' => Nat.eqb h' h | None => false end); auto.
+    + inversion C; subst. left. eexists. split; [reflexivity|]. auto.
+    + rewrite (H1 eq_refl) in C. cbn in C. inversion C; subst. left. eexists. split; [reflexivity|]. auto.
+    + inversion C; subst. right. eexists. rewrite getj_set_held. split; [eapply getj_setj_same; eauto|reflexivity].
+  - right. destruct F as [j [G D]]. destruct (cs_step_mono _ _ _ _ _ C G) as [j' [G' [_ [_ [[_ N] _]]]]].
+    exists j'. auto.
+Qed.
+
+Lemma effect_cprog : forall s q s' h, Inv s -> effect s q s' -> cprog s h -> cprog s' h.
+Proof.
+  intros s q s' h I E P. destruct E.
+  - exact P.
+  - destruct P as [[c [Hc _]]|F]; [congruence|]. right. eapply finished_effect; eauto. apply EffInsert; auto.
+  - destruct P as [[c [Hc R]]|F]; [left; exists c; auto|]. right. eapply finished_effect; eauto. eapply EffStatus; eauto.
+  - destruct P as [[c [Hc _]]|F]; [congruence|]. right. destruct F as [j0 [G0 D0]]. exists j0. auto.
+  - destruct P as [[c [Hc _]]|F]; [congruence|]. right. destruct F as [j0 [G0 D0]]. exists j0. auto.
+  - eapply cs_step_cprog; eauto.
+Qed.
+
 Definition cancel_R (h : nat) (p : pc) (s : sess) : Prop :=
-  (h < length (jobs s))%nat /\ (p = PC0 h \/ p = PC1 h \/ ((exists r, p = PDone r) /\ finished s h)).
+  (h < length (jobs s))%nat /\
+  (p = PC0 h \/ p = PC1 h \/ (p = PCS RUnit /\ cprog s h) \/ ((exists r, p = PDone r) /\ finished s h)).
 
 Lemma cancel_completes : forall es (c c' : cfg) h r,
   Inv (snd c) -> (h < length (jobs (snd c)))%nat ->
@@ -609,38 +886,67 @@ Proof.
   rewrite run_from_cons, exec_spawn in H. cbn [bind] in H.
   destruct (thread_inv (cancel_R h)) with (es := es) (c := (fst c ++ [init_pc (OCancel h)], snd c)) (c' := c') (t := length (fst c))
     as [p' [N' [_ R]]]; auto.
-  - intros p s p' s' Is [L R] S. pose proof (inv_noclosed _ Is) as NC. destruct (lt_getj _ _ L) as [j G].
-    pose proof (step_effect _ _ _ _ NC S) as E.
+  - intros p s p' s' Is [L R] S. destruct (lt_getj _ _ L) as [j G].
+    pose proof (step_effect _ _ _ _ S) as E.
     split; [eapply valid_effect; eauto|].
-    destruct R as [->|[->|[[r0 ->] F]]].
-    + cbn in S. rewrite G in S. destruct (jdone j) eqn:D; inversion S; subst; auto.
-      right. right. split; eauto. exists j. auto.
-    + right. right. cbn in S. rewrite G in S. pose proof (NC _ _ G) as NCj.
-      destruct j as [i st d rr e f o]; cbn in *.
-      destruct d; try congruence; cbn in S.
-      * destruct (lookup i (table s)) as [h'|]; [destruct (Nat.eqb h' h)|]; inversion S; subst;
-          (split; [eauto|]); eexists; (split; [try rewrite getj_set_table; eapply getj_setj_same; eauto|reflexivity]).
-      * inversion S; subst. split; eauto. eexists; split; eauto.
-    + inversion S; subst. right. right. split; eauto.
+    destruct R as [->|[->|[[-> P]|[[r0 ->] F]]]].
+    + rewrite step_unlocked in S by reflexivity. cbn in S. rewrite G in S.
+      destruct (jdone j) eqn:D; inversion S; subst; auto.
+      right. right. right. split; eauto. exists j. auto.
+    + unfold step in S. cbn [needs_lock andb] in S. destruct (is_held s) eqn:Hd.
+      * inversion S; subst. auto.
+      * cbn in S. rewrite G in S. apply is_held_false in Hd.
+        destruct (jdone j) eqn:D; inversion S; subst.
+        -- right. right. left. split; auto. left. eexists. split; [reflexivity|]. auto.
+        -- right. right. left. split; auto. left. eexists. split; [reflexivity|]. auto.
+        -- right. right. right. split; eauto. exists j. auto.
+    + pose proof (effect_cprog _ _ _ h Is E P) as P'.
+      rewrite step_unlocked in S by reflexivity. cbn in S.
+      destruct (held s) as [c0|] eqn:Hd.
+      * unfold bind in S. destruct (cs_step c0 s) as [s1| |]; try discriminate.
+        destruct (held s1) eqn:Hd1; inversion S; subst.
+        -- right. right. left. auto.
+        -- right. right. right. split; eauto. destruct P' as [[c1 [Hc1 _]]|F]; [congruence|exact F].
+      * inversion S; subst. right. right. right. split; eauto.
+        destruct P as [[c1 [Hc1 _]]|F]; [congruence|exact F].
+    + unfold step in S. cbn in S. inversion S; subst. right. right. right. split; eauto.
   - intros p s q s' Is [L R] E. split; [eapply valid_effect; eauto|].
-    destruct R as [->|[->|[X F]]]; auto. right. right. split; auto. eapply finished_effect; eauto.
+    destruct R as [->|[->|[[-> P]|[X F]]]]; auto.
+    + right. right. left. split; auto. eapply effect_cprog; eauto.
+    + right. right. right. split; auto. eapply finished_effect; eauto.
   - exists (PC0 h). cbn. split; [apply nth_spawned|]. split; auto.
-  - rewrite N in N'. inversion N'; subst. destruct R as [X|[X|[_ F]]]; try discriminate.
-    split; [exact F|]. apply finished_not_tracked; auto.
+  - rewrite N in N'. inversion N'; subst. destruct R as [X|[X|[[X _]|[_ F]]]]; try discriminate.
+    split; [exact F|]. apply released_not_tracked; auto. apply finished_released; exact F.
 Qed.
 
 (* ---- status: histories of the operations of the property (no accept / frag) ------------- *)
+
+(* what the lock holder has written so far *)
+Definition stage_ok (c : cs) (j : job) : Prop :=
+  match c with
+  | HRes _ _ _ _ => jstatus j = StWaiting /\ jres j = 0 /\ jerr j = false
+  | HSt _ _ tag _ => jres j = tag /\ jerr j = false
+  | HErrSt _ tag _ => jres j = tag
+  | HErrTxt _ tag _ => jres j = tag /\ jstatus j = StError
+  | HInfo _ tag => jres j = tag /\ jstatus j = StCompleted
+  | HDel _ err tag | HClose _ err tag => jres j = tag /\ jstatus j = (if err then StError else StCompleted)
+  | HNil _ => True
+  | CSt _ => jstatus j = StWaiting /\ jres j = 0 /\ jerr j = false
+  | CDel _ | CClose _ | CStNil _ => jstatus j = StCanceled /\ jres j = 0 /\ jerr j = false
+  end.
+
 Definition InvSt (s : sess) : Prop :=
   forall h j, getj s h = Some j ->
-    (jdone j = Open -> jstatus j = StWaiting /\ jres j = 0 /\ jerr j = false) /\
-    (jdone j = Nil -> final (jstatus j)).
+    (in_progress s h = false -> jdone j = Open -> jstatus j = StWaiting /\ jres j = 0 /\ jerr j = false) /\
+    (jdone j <> Open -> final (jstatus j)) /\
+    (forall c, held s = Some c -> cs_job c = h -> stage_ok c j).
 
 Definition clean (ps : list pc) : Prop := forall t p, nth_error ps t = Some p -> c14_pc p = true.
 
 Lemma step_c14 : forall p s p' s', step p s = Ok (p', s') -> c14_pc p = true -> c14_pc p' = true.
 Proof.
-  intros p s p' s' H C.
-  destruct p; try discriminate; cbn [step step_common] in H; unfold close_nil, close_chan, bind in H;
+  intros p s p' s' H C. unfold step in H. destruct (needs_lock p && is_held s); [inversion H; subst; exact C|].
+  destruct p; try discriminate; cbn [step_free step_common] in H; unfold bind in H;
     break_in H; try discriminate; inversion H; subst; reflexivity.
 Qed.
 
@@ -650,40 +956,148 @@ Proof. destruct o; reflexivity. Qed.
 Lemma final_cases : forall err : bool, final (if err then StError else StCompleted).
 Proof. intros [|]; unfold final; auto. Qed.
 
-Lemma effect_invst : forall s p s', Inv s -> InvSt s -> effect s p s' -> c14_pc p = true -> InvSt s'.
+Lemma in_progress_held_none : forall s h, held s = None -> in_progress s h = false.
+Proof. intros s h H. unfold in_progress. rewrite H. reflexivity. Qed.
+
+Lemma cs_step_other : forall c s s' h2,
+  cs_step c s = Ok s' -> h2 <> cs_job c -> getj s' h2 = getj s h2.
 Proof.
-  intros s p s' I St E C. destruct E.
-  - exact St.
-  - intros h j G. apply getj_insert_inv in G as [[_ ->]|[j0 [G [[-> _]|[-> _]]]]].
-    + cbn. split; [auto|discriminate].
-    + apply (St _ _ G).
-    + apply (St _ _ G).
-  - congruence.
-  - intros h2 j2 G. rewrite getj_set_table, getj_setj in G. destruct (Nat.eqb h h2).
-    + rewrite H in G. inversion G. cbn. split; [discriminate|]. intros _. apply final_cases.
-    + apply (St _ _ G).
-  - intros h2 j2 G. rewrite getj_set_table, getj_setj in G. destruct (Nat.eqb h h2).
-    + rewrite H in G. inversion G. cbn. split; [discriminate|]. intros _. unfold final; auto.
-    + apply (St _ _ G).
-  - intros h2 j2 G. rewrite getj_setj in G. destruct (Nat.eqb h h2).
-    + rewrite H in G. inversion G. cbn. split; [discriminate|]. intros _. unfold final; auto.
-    + apply (St _ _ G).
+  intros c s s' h2 C NE. unfold cs_step in C. destruct (getj s (cs_job c)) as [j|] eqn:G.
+  2:{ inversion C; subst. reflexivity. }
+  destruct c; cbn [cs_job] in *;
+    try (inversion C; subst; rewrite ?getj_set_held, ?getj_set_table, ?getj_setj_other by auto; reflexivity).
+  - destruct (jdone j); cbn in C; inversion C; subst;
+      rewrite ?getj_set_held, ?getj_setj_other by auto; reflexivity.
+  - destruct (jdone j); cbn in C; inversion C; subst;
+      rewrite ?getj_set_held, ?getj_setj_other by auto; reflexivity.
 Qed.
 
-(* a finished job is not touched by any step of these operations *)
-Lemma effect_frozen : forall s p s' h j,
-  Inv s -> effect s p s' -> c14_pc p = true -> getj s h = Some j -> jdone j = Nil -> getj s' h = Some j.
+Lemma cs_step_held : forall c s s',
+  cs_step c s = Ok s' -> held s' = None \/ exists c', held s' = Some c' /\ cs_job c' = cs_job c.
 Proof.
-  intros s p s' h j I E C G D. destruct E.
-  - exact G.
-  - rewrite (getj_insert_old _ _ _ _ G).
-    destruct (option_eqb Nat.eqb (lookup id (table s)) (Some h)) eqn:Q; [|reflexivity].
-    apply opt_eqb_true in Q. destruct (inv_table _ I _ _ Q) as [j2 [G2 [_ [D2 _]]]]. congruence.
+  intros c s s' C. unfold cs_step in C. destruct (getj s (cs_job c)) as [j|] eqn:G.
+  2:{ inversion C; subst. left. reflexivity. }
+  destruct c; cbn [cs_job] in *; try (inversion C; subst; cbn; eauto; fail).
+  - inversion C; subst. right. destruct err; eexists; split; reflexivity.
+  - destruct (jdone j); cbn in C; inversion C; subst; cbn; eauto.
+  - inversion C; subst. right.
+    destruct (match lookup (jid j) (table s) with Some h' => Nat.eqb h' h | None => false end); eexists; split; reflexivity.
+  - destruct (jdone j); cbn in C; inversion C; subst; cbn; eauto.
+Qed.
+
+Lemma in_progress_other : forall c s s' h2,
+  held s = Some c -> cs_step c s = Ok s' -> h2 <> cs_job c -> in_progress s' h2 = false /\ in_progress s h2 = false.
+Proof.
+  intros c s s' h2 Hd C NE. split.
+  - unfold in_progress. destruct (cs_step_held _ _ _ C) as [->|[c' [-> J]]]; [reflexivity|].
+    rewrite J. apply Nat.eqb_neq. auto.
+  - unfold in_progress. rewrite Hd. apply Nat.eqb_neq. auto.
+Qed.
+
+Lemma cs_step_invst : forall s c s', Inv s -> InvSt s -> held s = Some c -> cs_step c s = Ok s' -> InvSt s'.
+Proof.
+  intros s c s' I St Hd C h2 j2 G2.
+  destruct (Nat.eq_dec h2 (cs_job c)) as [->|NE].
+  2:{ rewrite (cs_step_other _ _ _ _ C NE) in G2. destruct (St _ _ G2) as [A [B D]].
+      destruct (in_progress_other _ _ _ _ Hd C NE) as [P1 P2].
+      split; [intros _; apply A; exact P2|]. split; [exact B|].
+      intros c' Hc' J. exfalso. destruct (cs_step_held _ _ _ C) as [X|[c1 [X J1]]]; congruence. }
+  destruct (inv_held _ I _ Hd) as [j [G [H1 [H1c _]]]].
+  destruct (St _ _ G) as [A [B D]]. specialize (D _ Hd eq_refl).
+  unfold cs_step in C. rewrite G in C.
+  assert (IP : forall x, in_progress (set_held s' (Some x)) (cs_job x) = false -> False).
+  { intros x X. unfold in_progress in X. cbn in X. rewrite Nat.eqb_refl in X. discriminate. }
+  destruct c; cbn [cs_job stage_ok] in *; try specialize (H1 eq_refl).
+  all: try (inversion C; subst; clear C; rewrite getj_set_held in G2;
+            try rewrite getj_set_table in G2; try rewrite (getj_setj_same _ _ _ _ G) in G2;
+            try rewrite G in G2; inversion G2; subst j2; clear G2).
+  - (* HRes *) split; [intro X; exfalso; unfold in_progress in X; cbn in X; rewrite Nat.eqb_refl in X; discriminate|].
+    split; [cbn; congruence|]. intros c' Hc' _. inversion Hc'; subst c'. cbn. tauto.
+  - (* HSt *) split; [intro X; exfalso; unfold in_progress in X; cbn in X; destruct err; cbn in X; rewrite Nat.eqb_refl in X; discriminate|].
+    split; [cbn; congruence|]. intros c' Hc' _. inversion Hc'; subst c'. destruct err; cbn; tauto.
+  - (* HErrSt *) split; [intro X; exfalso; unfold in_progress in X; cbn in X; rewrite Nat.eqb_refl in X; discriminate|].
+    split; [cbn; congruence|]. intros c' Hc' _. inversion Hc'; subst c'. cbn. tauto.
+  - (* HErrTxt *) split; [intro X; exfalso; unfold in_progress in X; cbn in X; rewrite Nat.eqb_refl in X; discriminate|].
+    split; [cbn; congruence|]. intros c' Hc' _. inversion Hc'; subst c'. cbn. tauto.
+  - (* HInfo *) split; [intro X; exfalso; unfold in_progress in X; cbn in X; rewrite Nat.eqb_refl in X; discriminate|].
+    split; [congruence|]. intros c' Hc' _. inversion Hc'; subst c'. cbn. tauto.
+  - (* HDel *) split; [intro X; exfalso; unfold in_progress in X; cbn in X; rewrite Nat.eqb_refl in X; discriminate|].
+    split; [congruence|]. intros c' Hc' _. inversion Hc'; subst c'. cbn. tauto.
+  - (* HClose *) rewrite H1 in C. cbn in C. inversion C; subst; clear C.
+    rewrite getj_set_held, (getj_setj_same _ _ _ _ G) in G2. inversion G2; subst j2.
+    split; [intro X; exfalso; unfold in_progress in X; cbn in X; rewrite Nat.eqb_refl in X; discriminate|].
+    split; [intros _; cbn; destruct D as [_ ->]; apply final_cases|].
+    intros c' Hc' _. inversion Hc'; subst c'. exact Logic.I.
+  - (* HNil *) split; [intros _ X; cbn in X; discriminate|]. split; [intros _; cbn; apply B; rewrite (H1c eq_refl); discriminate|].
+    intros c' Hc'. discriminate.
+  - (* CSt *) split; [intro X; exfalso; unfold in_progress in X; cbn in X;
+      destruct (match lookup (jid j) (table s) with Some h' => Nat.eqb h' h | None => false end); cbn in X; rewrite Nat.eqb_refl in X; discriminate|].
+    split; [cbn; congruence|]. intros c' Hc' _. inversion Hc'; subst c'.
+    destruct (match lookup (jid j) (table s) with Some h' => Nat.eqb h' h | None => false end); cbn; tauto.
+  - (* CDel *) split; [intro X; exfalso; unfold in_progress in X; cbn in X; rewrite Nat.eqb_refl in X; discriminate|].
+    split; [congruence|]. intros c' Hc' _. inversion Hc'; subst c'. cbn. tauto.
+  - (* CClose *) rewrite H1 in C. cbn in C. inversion C; subst; clear C.
+    rewrite getj_set_held, (getj_setj_same _ _ _ _ G) in G2. inversion G2; subst j2.
+    split; [intro X; exfalso; unfold in_progress in X; cbn in X; rewrite Nat.eqb_refl in X; discriminate|].
+    split; [intros _; cbn; destruct D as [-> _]; unfold final; auto|].
+    intros c' Hc' _. inversion Hc'; subst c'. cbn. tauto.
+  - (* CStNil *) split; [intros _ X; cbn in X; discriminate|]. split; [intros _; cbn; unfold final; auto|].
+    intros c' Hc'. discriminate.
+Qed.
+
+Lemma effect_invst : forall s p s', Inv s -> InvSt s -> effect s p s' -> c14_pc p = true -> InvSt s'.
+Proof.
+  intros s p s' I St E C.
+  destruct E as [p|id Hn|p h j j' Cp G Ei Ed Eo Er Ee|h err tag pl j Hn G L|h j Hn G D|r c s' Hd Cs].
+  - exact St.
+  - intros h j G. assert (IP : in_progress (insert_job s id) h = in_progress s h) by reflexivity.
+    rewrite IP. rewrite held_insert.
+    apply getj_insert_inv in G as [[_ ->]|[j0 [G [[-> _]|[-> _]]]]].
+    + cbn. split; [auto|]. split; [congruence|]. intros c Hc. congruence.
+    + apply (St _ _ G).
+    + apply (St _ _ G).
   - congruence.
-  - rewrite getj_set_table, getj_setj_other; auto. intro; subst h0.
-    destruct (inv_table _ I _ _ H0) as [j2 [G2 [_ [D2 _]]]]. congruence.
-  - rewrite getj_set_table, getj_setj_other; auto. intro; subst h0. congruence.
-  - rewrite getj_setj_other; auto. intro; subst h0. congruence.
+  - (* handle takes the lock *)
+    destruct (inv_table _ I _ _ L) as [j0 [G0 [_ [D0 _]]]]. rewrite G in G0. inversion G0; subst j0.
+    intros h2 j2 G2. rewrite getj_set_held in G2. destruct (St _ _ G2) as [A [B Dd]].
+    split; [|split; [exact B|]].
+    + intros X. apply A. apply in_progress_held_none. exact Hn.
+    + intros c Hc J. inversion Hc; subst c. cbn in J. subst h2. rewrite G in G2. inversion G2; subst j2.
+      cbn. apply A; auto. apply in_progress_held_none. exact Hn.
+  - (* Cancel takes the lock *)
+    assert (D0 : jdone j = Open).
+    { destruct (jdone j) eqn:X; auto; [|congruence]. destruct (inv_closed _ I _ _ G X) as [c [Hc _]]. congruence. }
+    intros h2 j2 G2. rewrite getj_set_held in G2. destruct (St _ _ G2) as [A [B Dd]].
+    split; [|split; [exact B|]].
+    + intros X. apply A. apply in_progress_held_none. exact Hn.
+    + intros c Hc J. inversion Hc; subst c. cbn in J. subst h2. rewrite G in G2. inversion G2; subst j2.
+      cbn. apply A; auto. apply in_progress_held_none. exact Hn.
+  - eapply cs_step_invst; eauto.
+Qed.
+
+(* released implies final: a job whose done is no longer open is not touched again in Status,
+   Result, Error by any step of these operations *)
+Lemma effect_frozen : forall s p s' h j,
+  Inv s -> InvSt s -> effect s p s' -> c14_pc p = true -> getj s h = Some j -> jdone j <> Open ->
+  exists j', getj s' h = Some j' /\ outcome j' = outcome j /\ jid j' = jid j.
+Proof.
+  intros s p s' h j I St E C G D.
+  destruct E as [p|id Hn|p h0 j0 j' Cp G0 Ei Ed Eo Er Ee|h0 err tag pl j0 Hn G0 L|h0 j0 Hn G0 D0|r c s' Hd Cs].
+  - eauto.
+  - rewrite (getj_insert_old _ _ _ _ G).
+    destruct (option_eqb Nat.eqb (lookup id (table s)) (Some h)); eexists; split; eauto.
+  - congruence.
+  - exists j. rewrite getj_set_held. auto.
+  - exists j. rewrite getj_set_held. auto.
+  - destruct (Nat.eq_dec h (cs_job c)) as [->|NE].
+    2:{ exists j. rewrite (cs_step_other _ _ _ _ Cs NE). auto. }
+    destruct (inv_held _ I _ Hd) as [j1 [G1 [H1 [H1c _]]]]. rewrite G in G1. inversion G1; subst j1.
+    destruct (St _ _ G) as [_ [_ Dd]]. specialize (Dd _ Hd eq_refl).
+    unfold cs_step in Cs. rewrite G in Cs.
+    destruct c; cbn [cs_job closed_st] in *; try (exfalso; apply D; apply H1; reflexivity).
+    + inversion Cs; subst. eexists. rewrite getj_set_held. split; [eapply getj_setj_same; eauto|]. auto.
+    + inversion Cs; subst. eexists. rewrite getj_set_held. split; [eapply getj_setj_same; eauto|].
+      cbn in Dd. destruct Dd as [Ds _]. unfold outcome. cbn. rewrite Ds. auto.
 Qed.
 
 (* the configuration invariant of such histories *)
@@ -701,7 +1115,7 @@ Proof.
       * destruct k; discriminate.
   - apply exec_run_cases in X as [[_ ->]|[p [p' [s' [N [S ->]]]]]]; [split; auto|].
     pose proof (Cl _ _ N) as Cp. split; cbn [fst snd].
-    + eapply effect_invst; eauto. eapply step_effect; eauto. apply I.
+    + eapply effect_invst; eauto. eapply step_effect; eauto.
     + intros t2 p2 N2. rewrite nth_upd in N2. destruct (Nat.eqb t t2).
       * rewrite N in N2. inversion N2; subst. eapply step_c14; eauto.
       * eapply Cl; eauto.
@@ -723,89 +1137,95 @@ Proof. split; [intros h j G; destruct h; discriminate|intros t p N; destruct t; 
 Lemma run_cinv : forall es c, forallb c14_ev es = true -> run es = Ok c -> CInv c.
 Proof. intros es c F H. eapply run_from_cinv; eauto. exact Inv_s0. exact CInv_0. Qed.
 
-(* pending <-> status waiting, no result; finished <-> final status *)
+(* a job that is not inside somebody's critical section is pending with status waiting and no
+   result, or released with a final status *)
 Lemma status_pending_final : forall es c h j,
   forallb c14_ev es = true -> run es = Ok c -> getj (snd c) h = Some j ->
-  (pending (snd c) h /\ jstatus j = StWaiting /\ jres j = 0 /\ jerr j = false) \/
-  (finished (snd c) h /\ final (jstatus j)).
+  (jdone j <> Open -> final (jstatus j)) /\
+  (in_progress (snd c) h = false -> jdone j = Open -> jstatus j = StWaiting /\ jres j = 0 /\ jerr j = false).
 Proof.
-  intros es c h j F H G. destruct (run_cinv _ _ F H) as [St _]. pose proof (run_inv _ _ H) as I.
-  destruct (St _ _ G) as [A B]. pose proof (inv_noclosed _ I _ _ G).
-  destruct (jdone j) eqn:D; try congruence.
-  - left. split; [exists j; auto|auto].
-  - right. split; [exists j; auto|auto].
+  intros es c h j F H G. destruct (run_cinv _ _ F H) as [St _].
+  destruct (St _ _ G) as [A [B _]]. auto.
 Qed.
 
 Lemma exec_frozen : forall e (c c' : cfg) h j,
-  Inv (snd c) -> clean (fst c) -> exec step init_pc e c = Ok c' ->
-  getj (snd c) h = Some j -> jdone j = Nil -> getj (snd c') h = Some j.
+  Inv (snd c) -> CInv c -> exec step init_pc e c = Ok c' ->
+  getj (snd c) h = Some j -> jdone j <> Open ->
+  exists j', getj (snd c') h = Some j' /\ outcome j' = outcome j /\ jid j' = jid j /\ jdone j' <> Open.
 Proof.
-  intros e c c' h j I Cl X G D. destruct (exec_effect _ _ _ I X) as [->|[t [p [_ [N E]]]]]; [exact G|].
-  eapply effect_frozen; eauto.
+  intros e c c' h j I [St Cl] X G D.
+  destruct (exec_mono _ _ _ _ _ X G) as [jm [Gm [_ [Dm _]]]].
+  destruct (exec_effect _ _ _ X) as [E|[t [p [_ [N E]]]]].
+  - rewrite E in *. exists j. rewrite G in Gm. inversion Gm; subst. auto.
+  - destruct (effect_frozen _ _ _ _ _ I St E (Cl _ _ N) G D) as [j' [G' [O' I']]].
+    exists j'. rewrite G' in Gm. inversion Gm; subst. auto.
 Qed.
 
-(* never changes afterwards *)
-Lemma finished_frozen : forall es (c c' : cfg) h j,
+(* released_implies_final over whole histories *)
+Lemma released_final : forall es (c c' : cfg) h j,
   forallb c14_ev es = true -> Inv (snd c) -> CInv c -> run_from c es = Ok c' ->
-  getj (snd c) h = Some j -> jdone j = Nil -> getj (snd c') h = Some j.
+  getj (snd c) h = Some j -> jdone j <> Open ->
+  exists j', getj (snd c') h = Some j' /\ outcome j' = outcome j /\ jid j' = jid j /\ jdone j' <> Open.
 Proof.
   induction es as [|e es IH]; intros c c' h j F I C H G D.
-  - inversion H; subst; exact G.
+  - inversion H; subst. exists j. auto.
   - cbn in F. apply andb_prop in F as [Fe Fr]. rewrite run_from_cons in H.
     destruct (exec step init_pc e c) as [c1| |] eqn:X; try discriminate.
-    eapply IH; [exact Fr| | |exact H| |exact D].
-    + eapply exec_inv; eauto.
-    + eapply exec_cinv; eauto.
-    + eapply exec_frozen; eauto. apply C.
+    destruct (exec_frozen _ _ _ _ _ I C X G D) as [j1 [G1 [O1 [I1 D1]]]].
+    assert (Inv1 : Inv (snd c1)) by exact (exec_inv e c c1 I X).
+    assert (C1 : CInv c1) by exact (exec_cinv e c c1 Fe I C X).
+    destruct (IH c1 c' h j1 Fr Inv1 C1 H G1 D1) as [j' [G' [O' [I' D']]]].
+    exists j'. split; [exact G'|]. split; [congruence|]. split; [congruence|exact D'].
 Qed.
 
-(* the finishing step: the one step in which a job goes from pending to finished is the critical
-   section of a result (PH2) or of a Cancel (PC1) on that very job; it records the status of
-   that event, the result of that event, and takes the job out of the table *)
-Lemma finishing_step : forall t (c c' : cfg) h,
+(* the releasing step: the one step after which a job is released (it was pending before) is the
+   close(done) of the critical section of a result for that job, or of a Cancel of that job; at
+   that moment the job already carries the status and the result of that event *)
+Lemma releasing_step : forall t (c c' : cfg) h,
   Inv (snd c) -> CInv c -> exec step init_pc (Run t) c = Ok c' ->
-  pending (snd c) h -> finished (snd c') h ->
-  exists p st r j', nth_error (fst c) t = Some p /\ commit p = Some (h, st, r) /\
+  pending (snd c) h -> released (snd c') h ->
+  exists r k st res j', nth_error (fst c) t = Some (PCS r) /\ held (snd c) = Some k /\
+    publishes k = Some (h, st, res) /\
     getj (snd c') h = Some j' /\ jstatus j' = st /\ final st /\
-    jres j' = match r with Some tag => tag | None => 0 end /\
+    jres j' = match res with Some tag => tag | None => 0 end /\
     ~ tracked (snd c') h.
 Proof.
   intros t c c' h I [St Cl] X P F.
   assert (I' : Inv (snd c')) by (eapply exec_inv; eauto).
-  destruct (exec_effect _ _ _ I X) as [E|[t' [p [Et [N E]]]]].
-  - exfalso. rewrite E in F. eapply pending_not_finished; eauto.
-  - inversion Et; subst t'. clear Et. destruct P as [j [G D]]. destruct F as [j' [G' D']].
-    exists p. destruct E.
+  destruct P as [j [G D]]. destruct F as [j' [G' D']].
+  assert (NT : ~ tracked (snd c') h) by (apply released_not_tracked; auto; exists j'; auto).
+  destruct (exec_effect _ _ _ X) as [E|[t' [p [Et [N E]]]]].
+  - exfalso. rewrite E in G'. congruence.
+  - inversion Et; subst t'. clear Et.
+    destruct E as [p|id Hn|p h0 j0 j0' Cp G0 Ei Ed Eo Er Ee|h0 err tag pl j0 Hn G0 L|h0 j0 Hn G0 D0|r k s' Hd Cs].
     + congruence.
     + rewrite (getj_insert_old _ _ _ _ G) in G'. inversion G'; subst.
       destruct (option_eqb Nat.eqb (lookup id (table (snd c))) (Some h)); cbn in D'; congruence.
     + pose proof (Cl _ _ N). congruence.
-    + rewrite getj_set_table, getj_setj in G'. destruct (Nat.eqb h0 h) eqn:Q; [|congruence].
-      apply Nat.eqb_eq in Q. subst h0. rewrite H in G'. inversion G'; subst j'.
-      rewrite H in G. inversion G; subst j0.
-      exists (if err then StError else StCompleted), (Some tag). eexists.
-      split; [exact N|]. split; [reflexivity|].
-      split; [rewrite getj_set_table; eapply getj_setj_same; eauto|].
-      split; [reflexivity|]. split; [apply final_cases|]. split; [reflexivity|].
-      apply finished_not_tracked; auto. eexists. split; [rewrite getj_set_table; eapply getj_setj_same; eauto|reflexivity].
-    + rewrite getj_set_table, getj_setj in G'. destruct (Nat.eqb h0 h) eqn:Q; [|congruence].
-      apply Nat.eqb_eq in Q. subst h0. rewrite H in G'. inversion G'; subst j'.
-      rewrite H in G. inversion G; subst j0.
-      exists StCanceled, None. eexists.
-      split; [exact N|]. split; [reflexivity|].
-      split; [rewrite getj_set_table; eapply getj_setj_same; eauto|].
-      split; [reflexivity|]. split; [unfold final; auto|].
-      split; [cbn; destruct (St _ _ H) as [A _]; apply A in D; tauto|].
-      apply finished_not_tracked; auto. eexists. split; [rewrite getj_set_table; eapply getj_setj_same; eauto|reflexivity].
-    + rewrite getj_setj in G'. destruct (Nat.eqb h0 h) eqn:Q; [|congruence].
-      apply Nat.eqb_eq in Q. subst h0. rewrite H in G'. inversion G'; subst j'.
-      rewrite H in G. inversion G; subst j0.
-      exists StCanceled, None. eexists.
-      split; [exact N|]. split; [reflexivity|].
-      split; [eapply getj_setj_same; eauto|].
-      split; [reflexivity|]. split; [unfold final; auto|].
-      split; [cbn; destruct (St _ _ H) as [A _]; apply A in D; tauto|].
-      apply finished_not_tracked; auto. eexists. split; [eapply getj_setj_same; eauto|reflexivity].
+    + rewrite getj_set_held in G'. congruence.
+    + rewrite getj_set_held in G'. congruence.
+    + destruct (Nat.eq_dec h (cs_job k)) as [->|NE].
+      2:{ rewrite (cs_step_other _ _ _ _ Cs NE) in G'. congruence. }
+      destruct (St _ _ G) as [_ [_ Dd]]. specialize (Dd _ Hd eq_refl).
+      destruct (inv_held _ I _ Hd) as [jk [Gk [_ [H1c _]]]]. rewrite G in Gk. inversion Gk; subst jk.
+      unfold cs_step in Cs. rewrite G in Cs.
+      destruct k; cbn [cs_job stage_ok closed_st] in *;
+        try (specialize (H1c eq_refl); congruence);
+        try (inversion Cs; subst; rewrite getj_set_held in G'; try rewrite getj_set_table in G';
+             try rewrite (getj_setj_same _ _ _ _ G) in G'; try rewrite G in G'; inversion G'; subst j';
+             cbn in D'; congruence).
+      * (* HClose *) rewrite D in Cs. cbn in Cs. inversion Cs; subst.
+        rewrite getj_set_held, (getj_setj_same _ _ _ _ G) in G'. inversion G'; subst j'.
+        exists r. eexists. exists (if err then StError else StCompleted), (Some tag). eexists.
+        split; [exact N|]. split; [exact Hd|]. split; [reflexivity|].
+        split; [rewrite getj_set_held; eapply getj_setj_same; eauto|]. cbn.
+        destruct Dd as [Dr Ds]. repeat split; auto using final_cases.
+      * (* CClose *) rewrite D in Cs. cbn in Cs. inversion Cs; subst.
+        rewrite getj_set_held, (getj_setj_same _ _ _ _ G) in G'. inversion G'; subst j'.
+        exists r. eexists. exists StCanceled, None. eexists.
+        split; [exact N|]. split; [exact Hd|]. split; [reflexivity|].
+        split; [rewrite getj_set_held; eapply getj_setj_same; eauto|]. cbn.
+        destruct Dd as [Ds [Dr _]]. repeat split; auto. unfold final; auto.
 Qed.
 
 Lemma forallb_app_inv : forall {A} (f : A -> bool) l1 l2,
@@ -816,11 +1236,12 @@ Proof. intros. rewrite forallb_app in H. apply andb_prop in H. exact H. Qed.
 Lemma status_first_event : forall es1 t es2 (c1 c2 c3 : cfg) h,
   forallb c14_ev (es1 ++ Run t :: es2) = true ->
   run es1 = Ok c1 -> exec step init_pc (Run t) c1 = Ok c2 -> run_from c2 es2 = Ok c3 ->
-  pending (snd c1) h -> finished (snd c2) h ->
-  exists p st r j, nth_error (fst c1) t = Some p /\ commit p = Some (h, st, r) /\
+  pending (snd c1) h -> released (snd c2) h ->
+  exists r k st res j j3, nth_error (fst c1) t = Some (PCS r) /\ held (snd c1) = Some k /\
+    publishes k = Some (h, st, res) /\
     getj (snd c2) h = Some j /\ jstatus j = st /\ final st /\
-    jres j = match r with Some tag => tag | None => 0 end /\
-    getj (snd c3) h = Some j /\ ~ tracked (snd c3) h.
+    jres j = match res with Some tag => tag | None => 0 end /\
+    getj (snd c3) h = Some j3 /\ outcome j3 = outcome j /\ released (snd c3) h /\ ~ tracked (snd c3) h.
 Proof.
   intros es1 t es2 c1 c2 c3 h F H1 X H3 P Fi.
   apply forallb_app_inv in F as [F1 F2]. cbn in F2.
@@ -828,67 +1249,74 @@ Proof.
   assert (I2 : Inv (snd c2)) by (eapply exec_inv; eauto).
   assert (C2 : CInv c2) by (apply (exec_cinv (Run t) c1 c2); auto).
   assert (I3 : Inv (snd c3)) by (eapply run_from_inv; eauto).
-  destruct (finishing_step _ _ _ _ I1 C1 X P Fi) as [p [st [r [j [N [Cm [G [S [Fs [R NT]]]]]]]]]].
-  exists p, st, r, j. do 6 (split; [assumption|]). split.
-  - destruct Fi as [j' [G' D']]. rewrite G in G'. inversion G'; subst j'.
-    exact (finished_frozen es2 c2 c3 h j F2 I2 C2 H3 G D').
-  - apply finished_not_tracked; auto. exact (finished_stable es2 c2 c3 h I2 Fi H3).
+  destruct (releasing_step _ _ _ _ I1 C1 X P Fi) as [r [k [st [res [j [N [Hd [Pb [G [S [Fs [R NT]]]]]]]]]]]].
+  assert (D : jdone j <> Open) by (destruct Fi as [j' [G' D']]; congruence).
+  destruct (released_final es2 c2 c3 h j F2 I2 C2 H3 G D) as [j3 [G3 [O3 [_ D3]]]].
+  exists r, k, st, res, j, j3. do 9 (split; [assumption|]).
+  assert (R3 : released (snd c3) h) by (exists j3; auto).
+  split; [exact R3|]. apply released_not_tracked; auto.
 Qed.
 
 (* ---- unknown_result_ignored -------------------------------------------------------------- *)
-Definition handle_R (wf : bool) (id : Z) (err : bool) (tag : Z) (p : pc) (s : sess) : Prop :=
-  p = PH0 wf id err tag \/
-  (p = PH1 id err tag /\ wf = true /\ 2 <= id) \/
-  (exists h j, p = PH2 h err tag /\ wf = true /\ 2 <= id /\ getj s h = Some j /\ jid j = id) \/
-  (exists r, p = PDone r).
+Definition handle_R (wf : bool) (id : Z) (err : bool) (tag : Z) (pl : list Z) (p : pc) (s : sess) : Prop :=
+  p = PH0 wf id err tag pl \/
+  (p = PH1 id err tag pl /\ wf = true /\ 2 <= id) \/
+  (exists h j, p = PH2 h err tag pl /\ wf = true /\ 2 <= id /\ getj s h = Some j /\ jid j = id) \/
+  (exists r, p = PCS r) \/ (exists r, p = PDone r).
 
-Lemma handle_thread : forall es (c c' : cfg) wf id err tag,
-  Inv (snd c) -> run_from c (Spawn (OHandle wf id err tag) :: es) = Ok c' ->
-  exists p, nth_error (fst c') (length (fst c)) = Some p /\ handle_R wf id err tag p (snd c').
+Lemma handle_thread : forall es (c c' : cfg) wf id err tag pl,
+  Inv (snd c) -> run_from c (Spawn (OHandle wf id err tag pl) :: es) = Ok c' ->
+  exists p, nth_error (fst c') (length (fst c)) = Some p /\ handle_R wf id err tag pl p (snd c').
 Proof.
-  intros es c c' wf id err tag I H. rewrite run_from_cons, exec_spawn in H. cbn [bind] in H.
-  apply (thread_inv (handle_R wf id err tag)) with (es := es) (c := (fst c ++ [init_pc (OHandle wf id err tag)], snd c));
-    [| |exact I|exists (PH0 wf id err tag); cbn [fst snd]; split; [apply nth_spawned|left; reflexivity]|exact H].
-  - intros p s p' s' Is R S. destruct R as [->|[[-> [W L]]|[[h [j [-> [W [L [G J]]]]]]|[r ->]]]].
+  intros es c c' wf id err tag pl I H. rewrite run_from_cons, exec_spawn in H. cbn [bind] in H.
+  apply (thread_inv (handle_R wf id err tag pl)) with (es := es) (c := (fst c ++ [init_pc (OHandle wf id err tag pl)], snd c));
+    [| |exact I|exists (PH0 wf id err tag pl); cbn [fst snd]; split; [apply nth_spawned|left; reflexivity]|exact H].
+  - intros p s p' s' Is R S. unfold step in S.
+    destruct (needs_lock p && is_held s); [inversion S; subst; exact R|].
+    destruct R as [->|[[-> [W L]]|[[h [j [-> [W [L [G J]]]]]]|[[r ->]|[r ->]]]]].
     + cbn in S. destruct (negb wf || (id <? 2)) eqn:Q.
-      * inversion S. right. right. right. eauto.
+      * inversion S. right. right. right. right. eauto.
       * apply orb_false_elim in Q as [Q1 Q2]. apply negb_false_iff in Q1. apply Z.ltb_ge in Q2.
-        destruct (is_nil (table s)); inversion S; subst; [right; right; right; eauto|].
+        destruct (is_nil (table s)); inversion S; subst; [right; right; right; right; eauto|].
         right. left. auto.
     + cbn in S. destruct (lookup id (table s)) as [h|] eqn:Lk; inversion S; subst.
       * destruct (inv_table _ Is _ _ Lk) as [j [G [J _]]]. right. right. left. exists h, j. auto.
-      * right. right. right. eauto.
-    + right. right. right. cbn in S. unfold close_nil, close_chan, bind in S.
-      break_in S; try discriminate; inversion S; eauto.
-    + inversion S. right. right. right. eauto.
-  - intros p s q s' Is R E. destruct R as [->|[[-> [W L]]|[[h [j [-> [W [L [G J]]]]]]|[r ->]]]].
+      * right. right. right. right. eauto.
+    + cbn in S. break_in S; inversion S; subst; [right; right; right; left; eauto|right; right; right; right; eauto..].
+    + cbn in S. unfold bind in S. break_in S; try discriminate; inversion S; subst;
+        [right; right; right; left; eauto|right; right; right; right; eauto..].
+    + inversion S. right. right. right. right. eauto.
+  - intros p s q s' Is R E. destruct R as [->|[[-> [W L]]|[[h [j [-> [W [L [G J]]]]]]|[[r ->]|[r ->]]]]].
     + left. reflexivity.
     + right. left. auto.
     + right. right. left. destruct (effect_mono _ _ _ _ _ E G) as [j' [G' [J' _]]].
       exists h, j'. repeat split; auto. congruence.
-    + right. right. right. eauto.
+    + right. right. right. left. eauto.
+    + right. right. right. right. eauto.
 Qed.
 
-(* every step of a result-arrival thread either changes nothing, or the packet was well formed,
-   its number id is >= 2, the table holds a pending job h under id at that moment, and the step
-   finishes exactly that job with the packet's status and result *)
-Lemma result_attribution : forall es (c c2 c3 : cfg) wf id err tag,
-  Inv (snd c) -> run_from c (Spawn (OHandle wf id err tag) :: es) = Ok c2 ->
+(* every step of a result-arrival thread BEFORE it is inside its critical section either changes
+   nothing, or: the packet was well formed, its number id is >= 2, the lock is free, the table
+   holds a pending job h under id at that moment, and the step takes the lock to finish exactly
+   that job with this packet *)
+Lemma result_attribution : forall es (c c2 c3 : cfg) wf id err tag pl,
+  Inv (snd c) -> run_from c (Spawn (OHandle wf id err tag pl) :: es) = Ok c2 ->
+  (forall r, nth_error (fst c2) (length (fst c)) <> Some (PCS r)) ->
   exec step init_pc (Run (length (fst c))) c2 = Ok c3 ->
   snd c3 = snd c2 \/
-  (wf = true /\ 2 <= id /\ exists h j,
+  (wf = true /\ 2 <= id /\ held (snd c2) = None /\ exists h j,
      lookup id (table (snd c2)) = Some h /\ getj (snd c2) h = Some j /\ jdone j = Open /\
-     snd c3 = set_table (setj (snd c2) h (fin_job j (if err then StError else StCompleted) tag err))
-                        (remove id (table (snd c2)))).
+     snd c3 = set_held (snd c2) (Some (HRes h err tag pl))).
 Proof.
-  intros es c c2 c3 wf id err tag I H X.
+  intros es c c2 c3 wf id err tag pl I H NCS X.
   assert (I2 : Inv (snd c2)) by (eapply run_from_inv; eauto).
-  destruct (handle_thread _ _ _ _ _ _ _ I H) as [p [N R]].
+  destruct (handle_thread _ _ _ _ _ _ _ _ I H) as [p [N R]].
   apply exec_run_cases in X as [[_ ->]|[q [q' [s' [N' [S ->]]]]]]; [left; reflexivity|].
   rewrite N in N'. inversion N'; subst q. cbn [snd].
-  pose proof (step_effect _ _ _ _ (inv_noclosed _ I2) S) as E.
-  destruct R as [->|[[-> [W L]]|[[h [j [-> [W [L [G J]]]]]]|[r ->]]]]; inversion E; subst; auto; try discriminate.
-  right. split; [auto|]. split; [auto|].
+  pose proof (step_effect _ _ _ _ S) as E.
+  destruct R as [->|[[-> [W L]]|[[h [j [-> [W [L [G J]]]]]]|[[r ->]|[r ->]]]]];
+    try (exfalso; eapply NCS; eauto; fail); inversion E; subst; auto; try discriminate.
+  right. split; [auto|]. split; [auto|]. split; [assumption|].
   match goal with Hg : getj (snd c2) h = Some ?x, Hl : lookup (jid ?x) _ = Some h |- _ =>
     rewrite G in Hg; inversion Hg; subst x;
     destruct (inv_table _ I2 _ _ Hl) as [j2 [G2 [_ [D2 _]]]]; rewrite G in G2; inversion G2; subst j2;
@@ -899,26 +1327,32 @@ Qed.
 Lemma mem_false_lookup : forall i t, mem i t = false -> lookup i t = None.
 Proof. intros i t H. unfold mem in H. destruct (lookup i t); [discriminate|reflexivity]. Qed.
 
-Lemma unknown_result_ignored : forall es (c c2 c3 : cfg) wf id err tag,
-  Inv (snd c) -> run_from c (Spawn (OHandle wf id err tag) :: es) = Ok c2 ->
+Lemma unknown_result_ignored : forall es (c c2 c3 : cfg) wf id err tag pl,
+  Inv (snd c) -> run_from c (Spawn (OHandle wf id err tag pl) :: es) = Ok c2 ->
+  (forall r, nth_error (fst c2) (length (fst c)) <> Some (PCS r)) ->
   exec step init_pc (Run (length (fst c))) c2 = Ok c3 ->
   mem id (table (snd c2)) = false \/ wf = false \/ id < 2 ->
   snd c3 = snd c2.
 Proof.
-  intros es c c2 c3 wf id err tag I H X Q.
-  destruct (result_attribution _ _ _ _ _ _ _ _ I H X) as [E|[W [L [h [j [Lk _]]]]]]; [exact E|].
+  intros es c c2 c3 wf id err tag pl I H NCS X Q.
+  destruct (result_attribution _ _ _ _ _ _ _ _ _ I H NCS X) as [E|[W [L [_ [h [j [Lk _]]]]]]]; [exact E|].
   exfalso. destruct Q as [Q|[Q|Q]]; [|congruence|lia].
   apply mem_false_lookup in Q. congruence.
 Qed.
 
+(* a critical section only writes the job it was entered for and only removes that job's number *)
+Lemma cs_only_own_job : forall c s s' h2,
+  cs_step c s = Ok s' -> h2 <> cs_job c -> getj s' h2 = getj s h2.
+Proof. exact cs_step_other. Qed.
+
 (* ---- job numbers: Task ------------------------------------------------------------------- *)
-(* the number Task allocates (n.Job = 0) is > 1, a uint16 and not in the table at the check *)
 Lemma task_alloc_fresh : forall draws full s i full' s',
   step (PTask0 0 draws full) s = Ok (PTask1 i full', s') ->
   1 < i < 65536 /\ mem i (table s) = false /\ s' = s.
 Proof.
-  intros draws full s i full' s' H.
-  change (step (PTask0 0 draws full) s) with
+  intros draws full s i full' s' H. unfold step in H.
+  destruct (needs_lock (PTask0 0 draws full) && is_held s); [discriminate|].
+  change (step_free (PTask0 0 draws full) s) with
     (if new_job_id draws (table s) =? 0 then Ok (PDone (RErr E_NOID), s)
      else Ok (PTask1 (new_job_id draws (table s)) full, s)) in H.
   destruct (new_job_id draws (table s) =? 0) eqn:E; inversion H; subst s'.
@@ -929,8 +1363,6 @@ Qed.
 Lemma mem_lookup_none : forall i t, mem i t = false <-> lookup i t = None.
 Proof. intros. unfold mem. destruct (lookup i t); split; congruence. Qed.
 
-(* when no two Task calls with the same number overlap between check and insert, a thread inside
-   its window holds a number that is not in the table, and no job is ever overwritten *)
 Definition WInv (c : cfg) : Prop :=
   (forall t p i, nth_error (fst c) t = Some p -> in_window p = Some i -> mem i (table (snd c)) = false) /\
   (forall h j, getj (snd c) h = Some j -> jorph j = false).
@@ -939,8 +1371,9 @@ Lemma step_window : forall p s p' s' i,
   step p s = Ok (p', s') -> in_window p' = Some i ->
   s' = s /\ (in_window p = Some i \/ mem i (table s) = false).
 Proof.
-  intros p s p' s' i H W.
-  destruct p; cbn [step step_common] in H; unfold close_nil, close_chan, bind in H;
+  intros p s p' s' i H W. unfold step in H.
+  destruct (needs_lock p && is_held s); [inversion H; subst; auto|].
+  destruct p; cbn [step_free step_common] in H; unfold bind in H;
     break_in H; try discriminate; inversion H; subst; cbn in W; try discriminate; inversion W; subst; auto.
 Qed.
 
@@ -950,13 +1383,34 @@ Proof.
   destruct (i =? k); reflexivity.
 Qed.
 
+Lemma cs_step_table : forall c s s',
+  cs_step c s = Ok s' -> table s' = table s \/ exists k, table s' = remove k (table s).
+Proof.
+  intros c s s' C. unfold cs_step in C. destruct (getj s (cs_job c)) as [j|].
+  2:{ inversion C; subst. auto. }
+  destruct c; try (inversion C; subst; cbn; eauto; fail).
+  - destruct (jdone j); cbn in C; inversion C; subst; cbn; auto.
+  - destruct (jdone j); cbn in C; inversion C; subst; cbn; auto.
+Qed.
+
 Lemma effect_winv_table : forall s p s' i,
   effect s p s' -> mem i (table s) = false -> in_window p <> Some i -> mem i (table s') = false.
 Proof.
-  intros s p s' i E M NW. destruct E; cbn [table setj set_table]; auto using mem_remove.
-  apply mem_lookup_none. rewrite lookup_insert. destruct (id =? i) eqn:Q.
-  - apply Z.eqb_eq in Q. subst. exfalso. apply NW. reflexivity.
-  - apply mem_lookup_none. exact M.
+  intros s p s' i E M NW. destruct E; cbn [table setj set_table set_held]; auto using mem_remove.
+  - apply mem_lookup_none. rewrite lookup_insert. destruct (id =? i) eqn:Q.
+    + apply Z.eqb_eq in Q. subst. exfalso. apply NW. reflexivity.
+    + apply mem_lookup_none. exact M.
+  - destruct (cs_step_table _ _ _ H0) as [->|[k ->]]; auto using mem_remove.
+Qed.
+
+Lemma cs_step_orph : forall c s s' h j',
+  cs_step c s = Ok s' -> getj s' h = Some j' -> exists j, getj s h = Some j /\ jorph j' = jorph j.
+Proof.
+  intros c s s' h j' C G'. destruct (getj s h) as [j|] eqn:G.
+  - destruct (cs_step_mono _ _ _ _ _ C G) as [j2 [G2 [_ [O2 _]]]]. rewrite G' in G2. inversion G2; subst. eauto.
+  - exfalso. destruct (Nat.eq_dec h (cs_job c)) as [->|NE].
+    + unfold cs_step in C. rewrite G in C. inversion C; subst. rewrite getj_set_held in G'. congruence.
+    + rewrite (cs_step_other _ _ _ _ C NE) in G'. congruence.
 Qed.
 
 Lemma effect_winv_orph : forall s p s',
@@ -970,24 +1424,18 @@ Proof.
   - rewrite getj_setj in G. destruct (Nat.eqb h h2).
     + rewrite H0 in G. inversion G; subst. rewrite H3. eauto.
     + eauto.
-  - rewrite getj_set_table, getj_setj in G. destruct (Nat.eqb h h2).
-    + rewrite H in G. inversion G. cbn. eauto.
-    + eauto.
-  - rewrite getj_set_table, getj_setj in G. destruct (Nat.eqb h h2).
-    + rewrite H in G. inversion G. cbn. eauto.
-    + eauto.
-  - rewrite getj_setj in G. destruct (Nat.eqb h h2).
-    + rewrite H in G. inversion G. cbn. eauto.
-    + eauto.
+  - rewrite getj_set_held in G. eauto.
+  - rewrite getj_set_held in G. eauto.
+  - destruct (cs_step_orph _ _ _ _ _ H0 G) as [j [G0 ->]]. eauto.
 Qed.
 
 Lemma init_not_window : forall o, in_window (init_pc o) = None.
 Proof. destruct o; reflexivity. Qed.
 
 Lemma exec_winv : forall e (c c' : cfg),
-  Inv (snd c) -> task_excl (fst c) -> WInv c -> exec step init_pc e c = Ok c' -> WInv c'.
+  task_excl (fst c) -> WInv c -> exec step init_pc e c = Ok c' -> WInv c'.
 Proof.
-  intros e c c' I TE [W Or] X. destruct e as [o|t].
+  intros e c c' TE [W Or] X. destruct e as [o|t].
   - inversion X; subst. split; cbn [fst snd]; [|exact Or]. intros t p i N Wi.
     destruct (Nat.lt_ge_cases t (length (fst c))) as [L|G].
     + rewrite nth_error_app1 in N by exact L. eapply W; eauto.
@@ -995,7 +1443,7 @@ Proof.
       * inversion N; subst. rewrite init_not_window in Wi. discriminate.
       * destruct k; discriminate.
   - apply exec_run_cases in X as [[_ ->]|[p [p' [s' [N [S ->]]]]]]; [split; auto|].
-    pose proof (step_effect _ _ _ _ (inv_noclosed _ I) S) as E.
+    pose proof (step_effect _ _ _ _ S) as E.
     split; cbn [fst snd].
     + intros t2 p2 i N2 Wi. rewrite nth_upd in N2. destruct (Nat.eqb t t2) eqn:Q.
       * rewrite N in N2. inversion N2; subst p2.
@@ -1009,51 +1457,46 @@ Lemma WInv_0 : WInv cfg0.
 Proof. split; [intros t p i N; destruct t; discriminate|intros h j G; destruct h; discriminate]. Qed.
 
 Lemma serial_winv : forall es (c c' : cfg),
-  Inv (snd c) -> WInv c -> tasks_serial c es -> run_from c es = Ok c' -> WInv c'.
+  WInv c -> tasks_serial c es -> run_from c es = Ok c' -> WInv c'.
 Proof.
-  induction es as [|e es IH]; intros c c' I W TS H.
+  induction es as [|e es IH]; intros c c' W TS H.
   - inversion H; subst; exact W.
   - destruct TS as [TE TS]. rewrite run_from_cons in H.
     destruct (exec step init_pc e c) as [c1| |] eqn:X; try discriminate.
-    eapply IH; [| |exact TS|exact H]; [eapply exec_inv|eapply exec_winv]; eauto.
+    eapply IH; [|exact TS|exact H]. eapply exec_winv; eauto.
 Qed.
 
-(* sequential Task calls: no job is ever overwritten, hence every job is tracked exactly while
-   it is pending, and the number being inserted is not a pending job's *)
 Lemma serial_no_orphan : forall es c h,
   tasks_serial cfg0 es -> run es = Ok c -> ~ orphaned (snd c) h.
 Proof.
   intros es c h TS H [j [G Or]].
-  destruct (serial_winv es cfg0 c Inv_s0 WInv_0 TS H) as [_ O]. rewrite (O _ _ G) in Or. discriminate.
+  destruct (serial_winv es cfg0 c WInv_0 TS H) as [_ O]. rewrite (O _ _ G) in Or. discriminate.
 Qed.
 
+(* tracked <-> pending, except for the one job whose critical section has deleted it and is about
+   to close it *)
 Lemma serial_tracked_iff_pending : forall es c h,
-  tasks_serial cfg0 es -> run es = Ok c -> (tracked (snd c) h <-> pending (snd c) h).
+  tasks_serial cfg0 es -> run es = Ok c -> in_progress (snd c) h = false ->
+  (tracked (snd c) h <-> pending (snd c) h).
 Proof.
-  intros es c h TS H. pose proof (run_inv _ _ H) as I. split; [apply tracked_pending; exact I|].
-  intros [j [G D]]. destruct (serial_winv es cfg0 c Inv_s0 WInv_0 TS H) as [_ O].
-  exists (jid j). apply (inv_open _ I); auto. eapply O; eauto.
+  intros es c h TS H NP. pose proof (run_inv _ _ H) as I. split; [apply tracked_pending; exact I|].
+  intros [j [G D]]. destruct (serial_winv es cfg0 c WInv_0 TS H) as [_ O].
+  exists (jid j). destruct (inv_open _ I _ _ G D (O _ _ G)) as [L|[k [Hk [J _]]]]; [exact L|].
+  exfalso. unfold in_progress in NP. rewrite Hk, J, Nat.eqb_refl in NP. discriminate.
 Qed.
 
 Lemma serial_insert_fresh : forall es c t id,
   tasks_serial cfg0 es -> run es = Ok c -> nth_error (fst c) t = Some (PTask3 id) ->
   mem id (table (snd c)) = false.
 Proof.
-  intros es c t id TS H N. destruct (serial_winv es cfg0 c Inv_s0 WInv_0 TS H) as [W _].
+  intros es c t id TS H N. destruct (serial_winv es cfg0 c WInv_0 TS H) as [W _].
   exact (W t (PTask3 id) id N eq_refl).
 Qed.
 
-(* concurrent Task calls with one number (the recorded finding): both pass the check, both insert;
-   the first job is overwritten, stays pending, is not in the table; the result for number 7 goes
-   to the second job and a waiter of the first stays blocked *)
-Definition race_pre : hist :=
-  [Spawn (OTask 7 [] false); Spawn (OTask 7 [] false);
-   Run 0%nat; Run 0%nat; Run 0%nat; Run 1%nat; Run 1%nat; Run 1%nat].
-Definition race_post : hist :=
-  [Run 0%nat; Run 1%nat;
-   Spawn (OHandle true 7 false 1); Run 2%nat; Run 2%nat; Run 2%nat;
-   Spawn (OWait 0%nat); Run 3%nat; Run 3%nat; Run 3%nat].
-Definition race_hist : hist := race_pre ++ race_post.
+Lemma serial_tracked : forall es c h,
+  tasks_serial cfg0 es -> run es = Ok c ->
+  ~ orphaned (snd c) h /\ (in_progress (snd c) h = false -> (tracked (snd c) h <-> pending (snd c) h)).
+Proof. intros es c h TS H. split; [eapply serial_no_orphan|intro; eapply serial_tracked_iff_pending]; eauto. Qed.
 
 Lemma tasks_serial_cons : forall e r (c : cfg),
   tasks_serial c (e :: r) =
@@ -1070,25 +1513,6 @@ Proof.
     eapply IH; eauto.
 Qed.
 
-Lemma race_pre_result : run race_pre = Ok ([PTask3 7; PTask3 7], s0).
-Proof. vm_compute. reflexivity. Qed.
-
-Lemma task_id_race_refuted :
-  exists es c, run es = Ok c /\ ~ tasks_serial cfg0 es /\
-    orphaned (snd c) 0%nat /\ pending (snd c) 0%nat /\ ~ tracked (snd c) 0%nat /\
-    finished (snd c) 1%nat /\ nth_error (fst c) 3%nat = Some (PW1 0%nat).
-Proof.
-  exists race_hist. eexists. split; [vm_compute; reflexivity|]. cbn [fst snd].
-  split; [|split; [|split; [|split; [|split]]]].
-  - intro TS. pose proof (tasks_serial_prefix _ _ _ _ TS race_pre_result) as X.
-    specialize (X 0%nat 1%nat (PTask3 7) (PTask3 7) 7 eq_refl eq_refl eq_refl eq_refl). discriminate.
-  - eexists. split; reflexivity.
-  - eexists. split; reflexivity.
-  - intros [k L]. cbn in L. discriminate.
-  - eexists. split; reflexivity.
-  - reflexivity.
-Qed.
-
 (* ---- the sequential semantics of the correspondence run is a special case of the histories - *)
 Lemma run_solo_done : forall f r s, run_solo f (PDone r) s = Ok (r, s).
 Proof. destruct f; reflexivity. Qed.
@@ -1100,11 +1524,14 @@ Proof. intros f p s H. destruct p; try reflexivity. exfalso. eapply H; eauto. Qe
 Lemma run_solo_O : forall p s, (forall r, p <> PDone r) -> run_solo O p s = Ok (RBlocked, s).
 Proof. intros p s H. destruct p; try reflexivity. exfalso. eapply H; eauto. Qed.
 
+Lemma step_done : forall r s, step (PDone r) s = Ok (PDone r, s).
+Proof. reflexivity. Qed.
+
 Lemma stutter_done : forall n (ps : list pc) t r s,
   nth_error ps t = Some (PDone r) -> run_from (ps, s) (repeat (Run t) n) = Ok (ps, s).
 Proof.
   induction n as [|n IH]; intros ps t r s N; [reflexivity|].
-  cbn [repeat]. rewrite run_from_cons. unfold exec. cbn [fst snd]. rewrite N. cbn.
+  cbn [repeat]. rewrite run_from_cons. unfold exec. cbn [fst snd]. rewrite N, step_done. cbn.
   rewrite (upd_same _ _ _ N). eapply IH; eauto.
 Qed.
 
@@ -1131,9 +1558,7 @@ Qed.
 Lemma upd_app_last : forall {A} (l : list A) x y, upd (l ++ [x]) (length l) y = l ++ [y].
 Proof. induction l; intros; cbn; [reflexivity|]. f_equal. apply IHl. Qed.
 
-(* apply_op (what `check` evaluates on every generated case) = spawn the operation and let it
-   run alone *)
-Lemma apply_op_unfold : forall o s, apply_op o s = run_solo 8 (init_pc o) s.
+Lemma apply_op_unfold : forall o s, apply_op o s = run_solo 16 (init_pc o) s.
 Proof. intros. unfold apply_op. reflexivity. Qed.
 
 Lemma spawn_then : forall o rs (ps : list pc) s,
@@ -1152,12 +1577,42 @@ Qed.
 
 Lemma solo_is_schedule : forall o s r s' (ps : list pc),
   apply_op o s = Ok (r, s') ->
-  exists p', run_from (ps, s) (Spawn o :: repeat (Run (length ps)) 8) = Ok (ps ++ [p'], s') /\
+  exists p', run_from (ps, s) (Spawn o :: repeat (Run (length ps)) 16) = Ok (ps ++ [p'], s') /\
              (p' = PDone r \/ r = RBlocked).
-Proof. intros o s r s' ps H. rewrite apply_op_unfold in H. exact (solo_sched_gen 8 o s r s' ps H). Qed.
+Proof. intros o s r s' ps H. rewrite apply_op_unfold in H. exact (solo_sched_gen 16 o s r s' ps H). Qed.
 
-(* ---- the pinned code fails the same statements (regression witnesses) ---------------------- *)
-(* Task(7); Cancel: the job leaves the table with Status = waiting *)
+(* ---- witnesses (vm_compute) ------------------------------------------------------------------ *)
+Definition R (t : nat) (k : nat) : hist := repeat (Run t) k.
+
+(* concurrent Task calls with one number (the recorded finding) *)
+Definition race_pre : hist :=
+  [Spawn (OTask 7 [] false); Spawn (OTask 7 [] false);
+   Run 0%nat; Run 0%nat; Run 0%nat; Run 1%nat; Run 1%nat; Run 1%nat].
+Definition race_post : hist :=
+  [Run 0%nat; Run 1%nat; Spawn (OHandle true 7 false 1 [0])] ++ R 2 9 ++
+  [Spawn (OWait 0%nat); Run 3%nat; Run 3%nat; Run 3%nat].
+Definition race_hist : hist := race_pre ++ race_post.
+
+Lemma race_pre_result : run race_pre = Ok ([PTask3 7; PTask3 7], s0).
+Proof. vm_compute. reflexivity. Qed.
+
+Lemma task_id_race_refuted :
+  exists es c, run es = Ok c /\ ~ tasks_serial cfg0 es /\
+    orphaned (snd c) 0%nat /\ pending (snd c) 0%nat /\ ~ tracked (snd c) 0%nat /\
+    finished (snd c) 1%nat /\ nth_error (fst c) 3%nat = Some (PW1 0%nat).
+Proof.
+  exists race_hist. eexists. split; [vm_compute; reflexivity|]. cbn [fst snd].
+  split; [|split; [|split; [|split; [|split]]]].
+  - intro TS. pose proof (tasks_serial_prefix _ _ _ _ TS race_pre_result) as X.
+    specialize (X 0%nat 1%nat (PTask3 7) (PTask3 7) 7 eq_refl eq_refl eq_refl eq_refl). discriminate.
+  - eexists. split; reflexivity.
+  - eexists. split; reflexivity.
+  - intros [k L]. cbn in L. discriminate.
+  - eexists. split; reflexivity.
+  - reflexivity.
+Qed.
+
+(* the pinned code fails the same statements (regression witnesses) *)
 Lemma pinned_cancel_status_refuted :
   exists es c j, pinned_run es = Ok c /\ getj (snd c) 0%nat = Some j /\
                  jdone j = Nil /\ jstatus j = StWaiting.
@@ -1167,62 +1622,102 @@ Proof.
   eexists. eexists. split; [vm_compute; reflexivity|]. split; [reflexivity|]. split; reflexivity.
 Qed.
 
-(* result || Cancel: handle.setStatus; Cancel sees "completed" and closes done; handle closes it again *)
 Lemma pinned_double_close_refuted : exists es, pinned_run es = Panic.
 Proof.
   exists [Spawn (OTask 7 [] false); Run 0%nat; Run 0%nat; Run 0%nat; Run 0%nat;
-          Spawn (OHandle true 7 false 1); Spawn (OCancel 0%nat);
+          Spawn (OHandle true 7 false 1 []); Spawn (OCancel 0%nat);
           Run 1%nat; Run 1%nat; Run 1%nat; Run 1%nat; Run 1%nat;
           Run 2%nat; Run 2%nat; Run 2%nat; Run 2%nat; Run 1%nat].
   vm_compute. reflexivity.
 Qed.
 
-(* ---- non-vacuity: result || Cancel || Cancel on the current code ---------------------------- *)
+(* non-vacuity: result || Cancel || Cancel on the current code, the first Cancel wins *)
 Definition race3_hist : hist :=
-  [Spawn (OTask 7 [] false); Run 0%nat; Run 0%nat; Run 0%nat; Run 0%nat;
-   Spawn (OHandle true 7 false 1); Spawn (OCancel 0%nat); Spawn (OCancel 0%nat);
-   Run 1%nat; Run 2%nat; Run 3%nat; Run 1%nat; Run 2%nat; Run 1%nat; Run 3%nat].
+  Spawn (OTask 7 [] false) :: R 0 4 ++
+  [Spawn (OHandle true 7 false 1 [0]); Spawn (OCancel 0%nat); Spawn (OCancel 0%nat);
+   Run 1%nat; Run 2%nat; Run 3%nat; Run 1%nat] ++ R 2 5 ++ [Run 1%nat; Run 3%nat].
 
 Lemma race3_result :
   run race3_hist =
   Ok ([PDone (RJob 0%nat); PDone (RBool false); PDone RUnit; PDone RUnit],
-      mkSess [mkJob 7 StCanceled Nil 0 false 0 false] []).
+      mkSess [mkJob 7 StCanceled Nil 0 false 0 false] [] None).
 Proof. vm_compute. reflexivity. Qed.
 
-(* the same three threads, the result first *)
+(* the same three threads, the (error, text "boom") result first *)
 Definition race3b_hist : hist :=
-  [Spawn (OTask 7 [] false); Run 0%nat; Run 0%nat; Run 0%nat; Run 0%nat;
-   Spawn (OHandle true 7 true 1); Spawn (OCancel 0%nat); Spawn (OCancel 0%nat);
-   Run 1%nat; Run 2%nat; Run 3%nat; Run 1%nat; Run 1%nat; Run 2%nat; Run 3%nat].
+  Spawn (OTask 7 [] false) :: R 0 4 ++
+  [Spawn (OHandle true 7 true 1 [1;4;98;111;111;109]); Spawn (OCancel 0%nat); Spawn (OCancel 0%nat);
+   Run 1%nat; Run 2%nat; Run 3%nat; Run 1%nat] ++ R 1 8 ++ [Run 2%nat; Run 3%nat].
 
 Lemma race3b_result :
   run race3b_hist =
   Ok ([PDone (RJob 0%nat); PDone (RBool true); PDone RUnit; PDone RUnit],
-      mkSess [mkJob 7 StError Nil 1 true 0 false] []).
+      mkSess [mkJob 7 StError Nil 1 true 0 false] [] None).
 Proof. vm_compute. reflexivity. Qed.
 
-(* ---- the statements of Props/C14.v, assembled ------------------------------------------------ *)
-(* waiters_released: in every reachable state a job that has left the table (and was not
-   overwritten by a concurrent Task) has done = nil, and every thread blocked in Wait on it
-   returns at its next step *)
-Lemma waiters_released : forall es c h j t p,
-  run es = Ok c -> getj (snd c) h = Some j -> jorph j = false -> ~ tracked (snd c) h ->
-  finished (snd c) h /\
-  (nth_error (fst c) t = Some p -> p = PW0 h \/ p = PW1 h ->
-   exec step init_pc (Run t) c = Ok (upd (fst c) t (PDone RUnit), snd c)).
+(* an error-flagged result with EMPTY text, an IsDone reader that looks between close(done) and
+   done = nil, and a Cancel that waits for the lock: the reader is told "done" while the result
+   thread is still inside its critical section, and what it can see is already final
+   (Status error although Error is empty) *)
+Definition reader_hist : hist :=
+  Spawn (OTask 7 [] false) :: R 0 4 ++
+  [Spawn (OHandle true 7 true 1 [0]); Spawn (OIsDone 0%nat); Spawn (OCancel 0%nat)] ++ R 1 3 ++
+  [Run 3%nat; Run 3%nat; Run 3%nat] ++ R 1 6 ++ [Run 2%nat; Run 2%nat].
+
+Lemma reader_result :
+  run reader_hist =
+  Ok ([PDone (RJob 0%nat); PCS (RBool true); PDone (RBool true); PC1 0%nat],
+      mkSess [mkJob 7 StError Closed 1 false 0 false] [] (Some (HNil 0%nat))).
+Proof. vm_compute. reflexivity. Qed.
+
+(* outside the quantifier of the property: accept / frag write Job.Status without the lock *)
+Lemma accept_overwrites_final_status :
+  exists es c j, run es = Ok c /\ getj (snd c) 0%nat = Some j /\ jdone j = Nil /\ jstatus j = StAccepted.
 Proof.
-  intros es c h j t p H G Or NT. pose proof (run_inv _ _ H) as I.
-  assert (F : finished (snd c) h) by (eapply untracked_finished; eauto).
-  split; [exact F|]. intros N P. unfold exec. rewrite N.
-  rewrite (wait_step_finished _ _ _ F P). reflexivity.
+  exists (Spawn (OTask 7 [] false) :: R 0 4 ++ [Spawn (OAccept 7); Run 1%nat; Run 1%nat;
+          Spawn (OHandle true 7 false 1 [0])] ++ R 2 9 ++ [Run 1%nat]).
+  eexists. eexists. split; [vm_compute; reflexivity|]. split; [reflexivity|]. split; reflexivity.
 Qed.
 
-(* ... and Wait never returns while the job is pending *)
-Lemma wait_returns_only_finished : forall es1 es2 c1 c2 h r,
+(* error-flagged results: the text is empty exactly for a payload that starts with the class byte 0
+   (WriteString(""), the single zero byte Session.write emits); every other shape, the truncated
+   ones included, leaves a non-empty Error; the Status does not depend on it *)
+Lemma err_nonempty_shapes :
+  err_nonempty [0] = false /\ err_nonempty [0; 9; 9] = false /\ err_nonempty [] = true /\
+  err_nonempty [1] = true /\ err_nonempty [1; 4; 98] = true /\ err_nonempty [1; 0] = true /\
+  err_nonempty [1; 4; 98; 111; 111; 109] = true /\ err_nonempty [3; 0] = true /\ err_nonempty [200] = true.
+Proof. vm_compute. repeat split; reflexivity. Qed.
+
+(* ---- the statements of Props/C14.v, assembled ------------------------------------------------ *)
+Lemma waiters_released : forall es c h j,
+  run es = Ok c -> held (snd c) = None -> getj (snd c) h = Some j -> jorph j = false -> ~ tracked (snd c) h ->
+  finished (snd c) h.
+Proof. intros es c h j H Hn G Or NT. eapply untracked_finished; eauto. eapply run_inv; eauto. Qed.
+
+Lemma waiter_returns : forall es c h t p,
+  run es = Ok c -> released (snd c) h -> nth_error (fst c) t = Some p -> p = PW0 h \/ p = PW1 h ->
+  exec step init_pc (Run t) c = Ok (upd (fst c) t (PDone RUnit), snd c) \/
+  (exec step init_pc (Run t) c = Ok (upd (fst c) t (PW1 h), snd c) /\
+   exec step init_pc (Run t) (upd (fst c) t (PW1 h), snd c) = Ok (upd (fst c) t (PDone RUnit), snd c)).
+Proof.
+  intros es c h t p H Rl N P. destruct (wait_step_released _ _ Rl) as [S1 S0].
+  unfold exec. rewrite N. destruct P as [->| ->].
+  - destruct S0 as [S0|S0]; rewrite S0; cbn; [left; reflexivity|right]. split; [reflexivity|].
+    cbn [fst snd]. rewrite (nth_upd_same _ _ _ _ N), S1. cbn. rewrite upd_upd. reflexivity.
+  - rewrite S1. left. reflexivity.
+Qed.
+
+Lemma wait_returns_only_released : forall es1 es2 c1 c2 h r,
   run es1 = Ok c1 -> (h < length (jobs (snd c1)))%nat ->
   run_from c1 (Spawn (OWait h) :: es2) = Ok c2 ->
-  nth_error (fst c2) (length (fst c1)) = Some (PDone r) -> finished (snd c2) h.
+  nth_error (fst c2) (length (fst c1)) = Some (PDone r) -> released (snd c2) h.
 Proof. intros es1 es2 c1 c2 h r H. eapply wait_not_early. eapply run_inv; eauto. Qed.
+
+Lemma isdone_true_only_released : forall es1 es2 c1 c2 h,
+  run es1 = Ok c1 -> (h < length (jobs (snd c1)))%nat ->
+  run_from c1 (Spawn (OIsDone h) :: es2) = Ok c2 ->
+  nth_error (fst c2) (length (fst c1)) = Some (PDone (RBool true)) -> released (snd c2) h.
+Proof. intros es1 es2 c1 c2 h H. eapply isdone_true_released. eapply run_inv; eauto. Qed.
 
 Lemma cancel_returns_finished : forall es1 es2 c1 c2 h r,
   run es1 = Ok c1 -> (h < length (jobs (snd c1)))%nat ->
@@ -1231,78 +1726,58 @@ Lemma cancel_returns_finished : forall es1 es2 c1 c2 h r,
   finished (snd c2) h /\ ~ tracked (snd c2) h.
 Proof. intros es1 es2 c1 c2 h r H. eapply cancel_completes. eapply run_inv; eauto. Qed.
 
-(* IsDone = true only for a finished job *)
-Definition isdone_R (h : nat) (p : pc) (s : sess) : Prop :=
-  (h < length (jobs s))%nat /\
-  (p = PI0 h \/ p = PI1 h \/ p = PDone (RBool false) \/ (p = PDone (RBool true) /\ finished s h)).
-
-Lemma isdone_true_finished : forall es1 es2 c1 c2 h,
-  run es1 = Ok c1 -> (h < length (jobs (snd c1)))%nat ->
-  run_from c1 (Spawn (OIsDone h) :: es2) = Ok c2 ->
-  nth_error (fst c2) (length (fst c1)) = Some (PDone (RBool true)) -> finished (snd c2) h.
-Proof.
-  intros es1 es2 c h0 h H1 V H N. pose proof (run_inv _ _ H1) as I. rename h0 into c'.
-  rewrite run_from_cons, exec_spawn in H. cbn [bind] in H.
-  destruct (thread_inv (isdone_R h)) with (es := es2) (c := (fst c ++ [init_pc (OIsDone h)], snd c)) (c' := c') (t := length (fst c))
-    as [p' [N' [_ R]]]; auto.
-  - intros p s p' s' Is [L R] S. pose proof (inv_noclosed _ Is) as NC. destruct (lt_getj _ _ L) as [j G].
-    destruct R as [->|[->|[->|[-> F]]]]; cbn in S; try rewrite G in S.
-    + destruct (jdone j) eqn:D; inversion S; subst; (split; [auto|]); auto.
-      right. right. right. split; auto. exists j. auto.
-    + destruct (jdone j) eqn:D; inversion S; subst; (split; [auto|]); auto;
-        try (exfalso; eapply NC; eauto; fail). right. right. right. split; auto. exists j. auto.
-    + inversion S; subst. split; auto.
-    + inversion S; subst. split; auto.
-  - intros p s q s' Is [L R] E. split; [eapply valid_effect; eauto|].
-    destruct R as [->|[->|[->|[-> F]]]]; auto. right. right. right. split; auto. eapply finished_effect; eauto.
-  - exists (PI0 h). cbn. split; [apply nth_spawned|]. split; auto.
-  - rewrite N in N'. inversion N'; subst. destruct R as [X|[X|[X|[_ F]]]]; try discriminate. exact F.
-Qed.
-
-(* leaves_table: a finished job is not in the table, under any number; what the table holds is pending *)
 Lemma leaves_table : forall es c h,
-  run es = Ok c -> (finished (snd c) h -> ~ tracked (snd c) h) /\ (tracked (snd c) h -> pending (snd c) h).
+  run es = Ok c -> (released (snd c) h -> ~ tracked (snd c) h) /\ (tracked (snd c) h -> pending (snd c) h).
 Proof.
   intros es c h H. pose proof (run_inv _ _ H) as I. split.
-  - apply finished_not_tracked; auto.
+  - apply released_not_tracked; auto.
   - apply tracked_pending; auto.
 Qed.
 
-(* once finished, always finished (any operations) *)
-Lemma finished_forever : forall es1 es2 c1 c2 h,
-  run es1 = Ok c1 -> run_from c1 es2 = Ok c2 -> finished (snd c1) h -> finished (snd c2) h.
-Proof. intros. eapply finished_stable; eauto. eapply run_inv; eauto. Qed.
+Lemma released_forever : forall es1 es2 c1 c2 h,
+  run es1 = Ok c1 -> run_from c1 es2 = Ok c2 -> released (snd c1) h -> released (snd c2) h.
+Proof. intros. eapply released_stable; eauto. eapply run_inv; eauto. Qed.
 
-(* outside the quantifier of the property: accept / frag write Job.Status without the lock, after
-   an unlocked-from-then-on lookup; racing a result they overwrite the final status *)
-Lemma accept_overwrites_final_status :
-  exists es c j, run es = Ok c /\ getj (snd c) 0%nat = Some j /\ jdone j = Nil /\ jstatus j = StAccepted.
+(* released implies final: from the moment anybody can observe done closed *)
+Lemma released_implies_final : forall es1 es2 c1 c2 h j,
+  forallb c14_ev (es1 ++ es2) = true -> run es1 = Ok c1 -> run_from c1 es2 = Ok c2 ->
+  getj (snd c1) h = Some j -> jdone j <> Open ->
+  final (jstatus j) /\
+  exists j', getj (snd c2) h = Some j' /\ outcome j' = outcome j /\ jdone j' <> Open.
 Proof.
-  exists [Spawn (OTask 7 [] false); Run 0%nat; Run 0%nat; Run 0%nat; Run 0%nat;
-          Spawn (OAccept 7); Run 1%nat; Run 1%nat;
-          Spawn (OHandle true 7 false 1); Run 2%nat; Run 2%nat; Run 2%nat; Run 1%nat].
-  eexists. eexists. split; [vm_compute; reflexivity|]. split; [reflexivity|]. split; reflexivity.
+  intros es1 es2 c1 c2 h j F H1 H2 G D. apply forallb_app_inv in F as [F1 F2].
+  pose proof (run_inv _ _ H1) as I1. pose proof (run_cinv _ _ F1 H1) as C1.
+  split; [destruct C1 as [St _]; destruct (St _ _ G) as [_ [B _]]; auto|].
+  destruct (released_final es2 c1 c2 h j F2 I1 C1 H2 G D) as [j' [G' [O' [_ D']]]]. eauto.
 Qed.
 
-(* the two statements about results, from the empty session *)
-Lemma result_attribution_run : forall es1 es2 c1 c2 c3 wf id err tag,
-  run es1 = Ok c1 -> run_from c1 (Spawn (OHandle wf id err tag) :: es2) = Ok c2 ->
+Lemma result_attribution_run : forall es1 es2 c1 c2 c3 wf id err tag pl,
+  run es1 = Ok c1 -> run_from c1 (Spawn (OHandle wf id err tag pl) :: es2) = Ok c2 ->
+  (forall r, nth_error (fst c2) (length (fst c1)) <> Some (PCS r)) ->
   exec step init_pc (Run (length (fst c1))) c2 = Ok c3 ->
   snd c3 = snd c2 \/
-  (wf = true /\ 2 <= id /\ exists h j,
+  (wf = true /\ 2 <= id /\ held (snd c2) = None /\ exists h j,
      lookup id (table (snd c2)) = Some h /\ getj (snd c2) h = Some j /\ jdone j = Open /\
-     snd c3 = set_table (setj (snd c2) h (fin_job j (if err then StError else StCompleted) tag err))
-                        (remove id (table (snd c2)))).
-Proof. intros es1 es2 c1 c2 c3 wf id err tag H. apply result_attribution. eapply run_inv; eauto. Qed.
+     snd c3 = set_held (snd c2) (Some (HRes h err tag pl))).
+Proof. intros es1 es2 c1 c2 c3 wf id err tag pl H. apply result_attribution. eapply run_inv; eauto. Qed.
 
-Lemma unknown_result_ignored_run : forall es1 es2 c1 c2 c3 wf id err tag,
-  run es1 = Ok c1 -> run_from c1 (Spawn (OHandle wf id err tag) :: es2) = Ok c2 ->
+Lemma unknown_result_ignored_run : forall es1 es2 c1 c2 c3 wf id err tag pl,
+  run es1 = Ok c1 -> run_from c1 (Spawn (OHandle wf id err tag pl) :: es2) = Ok c2 ->
+  (forall r, nth_error (fst c2) (length (fst c1)) <> Some (PCS r)) ->
   exec step init_pc (Run (length (fst c1))) c2 = Ok c3 ->
   mem id (table (snd c2)) = false \/ wf = false \/ id < 2 ->
   snd c3 = snd c2.
-Proof. intros es1 es2 c1 c2 c3 wf id err tag H. apply unknown_result_ignored. eapply run_inv; eauto. Qed.
+Proof. intros es1 es2 c1 c2 c3 wf id err tag pl H. apply unknown_result_ignored. eapply run_inv; eauto. Qed.
 
-Lemma serial_tracked : forall es c h,
-  tasks_serial cfg0 es -> run es = Ok c ->
-  ~ orphaned (snd c) h /\ (tracked (snd c) h <-> pending (snd c) h).
-Proof. intros es c h TS H. split; [eapply serial_no_orphan|eapply serial_tracked_iff_pending]; eauto. Qed.
+(* the critical section entered for job h writes job h only *)
+Lemma cs_writes_own_job : forall es c t r k c' h2,
+  run es = Ok c -> nth_error (fst c) t = Some (PCS r) -> held (snd c) = Some k ->
+  exec step init_pc (Run t) c = Ok c' -> h2 <> cs_job k -> getj (snd c') h2 = getj (snd c) h2.
+Proof.
+  intros es c t r k c' h2 H N Hd X NE.
+  apply exec_run_cases in X as [[_ ->]|[q [q' [s' [N' [S ->]]]]]]; [reflexivity|].
+  rewrite N in N'. inversion N'; subst q. cbn [snd].
+  rewrite step_unlocked in S by reflexivity. cbn in S. rewrite Hd in S. unfold bind in S.
+  destruct (cs_step k (snd c)) as [s1| |] eqn:C; try discriminate. inversion S; subst.
+  eapply cs_step_other; eauto.
+Qed.
